@@ -12,1131 +12,2603 @@ Definition show_fres (r : fres) : string :=
   end.
 Definition check (rs : list rune) : string := digest (show_fres (format_res rs)).
 Definition full (rs : list rune) : string := show_fres (format_res rs).
-Eval vm_compute in ("<<<M2027>>>" ++ check (runes_of_ascii "// top
-options {
-    // c1
-    StringPrefixLenType = u8;// c5a
-    // c5b
-    ArrayPrefixLenType = u32;
-    // c9
-    FixedStringPadFromLeft = false;// c13
-    FixedStringPadChar = ' ';
-}
-
-// c18
-packet Party {
-    repeat i16 Qty,
-    // c25
-    repeat string Tail,
-    // c29
-    i8 OrderId,// c32
-    i8 msgKind,
-    // c35
-}
-
-packet Ack {
-    Party,
-    repeat InRef20 {
-        Party,// c46a
-        // c46b
-        int8 tag7,
-        char[5] OrderId,// c54
-        zchar[7] Tail,// c59a
-        // c59b
-        char[] count,
-        // c62
-        InPrice45 {
-            // c64
-            Party,
-            // c66
-            char[1] Px,
+Eval vm_compute in ("<<<M4447>>>" ++ check (runes_of_ascii "packet options1 {
+    i8 leftPad `say ""hi""`,
+    @tag(4294967296)
+    repeat zchar[7] Pad,
+    @leftPad('\x00')
+    As `u8 x,`,
+    falsey @calculatedFrom(""x y""),
+    // `tick` ""quote"" 'q'
+    //x
+    pack `say ""hi""`,
+    x {
+        match Header as charz {
+            00 : a1,
         },
-        // c73
-    },// c75
-    char[12] price,// c80a
-    // c80b
-    int8 sym,
-    // c83
-}
-
-packet Reject {
-    // c87a
-    // c87b
-    repeat InPrice47 {
-        Party,
-        // c92
+        repeat char[0123456789] rootA `line1
+        line2`,
+        uint64 tag `" ++ [28040; 24687; 31867; 22411]%N ++ runes_of_ascii "`,
+        f32 Z9_,// c
     },
-    zchar[4] x,
-    repeat Ack,
-    zchar[2] Ref,
-    repeat Party,// c110
-}// c111
-
-packet Cancel {
-    // c114a
-    // c114b
-    Reject,// c116
-    repeat string f1,// c120
-    uint16 OrderId,// c123
-    u8 Acct,
-    int8 msgKind,// c129a
-    // c129b
-}
-
-root packet Fill {
-    u8 count,
-    // c137
-    char[] tag7,
-    // c140
-    zchar[7] Acct,// c145
-    u32 OrderId,// c148
-    u32 Note @lengthOf(Body),// c154
-    match OrderId as Body {
-        // c159a
-        // c159b
-        106 : Cancel,
-        // c163
-        196 : Reject,
-        // c167
-        74 : Party,
-        // c171
-        75 : Ack,
-        // c175a
-        // c175b
-    },// c177a
-    // c177b
-}// c178a
-// c178b")).
-Eval vm_compute in ("<<<M1419>>>" ++ check (runes_of_ascii "packet Frame
-    // c1
-{ // c2a
-  // c2b
-u8 HK // c4a
-  // c4b
-, // c5
-u8
-    // c6
-BK // c7a
-  // c7b
-, // c8a
-  // c8b
-u8 TK // c10a
-  // c10b
-,
-    // c11
-match HK as // c14a
-  // c14b
-Hdr { // c16a
-  // c16b
-1 // c17a
-  // c17b
-: // c18a
-  // c18b
-HdrA
-    // c19
-, // c20a
-  // c20b
-2 // c21
-:
-    // c22
-HdrB // c23a
-  // c23b
-,
-    // c24
-} ,
-    // c26
-match BK
-    // c28
-as Body // c30
-{ // c31
-1 // c32a
-  // c32b
-:
-    // c33
-BodyA // c34
-, // c35a
-  // c35b
-2 : BodyB // c38
-, // c39a
-  // c39b
-} // c40
-, match // c42
-TK as
-    // c44
-Trl // c45a
-  // c45b
-{ 1 // c47a
-  // c47b
-:
-    // c48
-TrlA
-    // c49
-, }
-    // c51
-,
-    // c52
-} // c53
-packet HdrA // c55a
-  // c55b
-{ // c56
-u8 // c57
-a // c58
-, // c59a
-  // c59b
-}
-    // c60
-packet // c61a
-  // c61b
-HdrB { // c63
-u16 b ,
-    // c66
-}
-    // c67
-packet BodyA
-    // c69
-{ u32
-    // c71
-c // c72
-,
-    // c73
-}
-    // c74
-packet // c75a
-  // c75b
-BodyB { // c77
-u64 // c78a
-  // c78b
-d , } // c81a
-  // c81b
-packet // c82
-TrlA { // c84
-u8 // c85a
-  // c85b
-e
-    // c86
-, // c87a
-  // c87b
-} root
-    // c89
-packet // c90
-Msg // c91
-{ // c92a
-  // c92b
-Frame , u8 // c95
-x
-    // c96
-, // c97a
-  // c97b
-} // c98
-")).
-Eval vm_compute in ("<<<M1398>>>" ++ check (runes_of_ascii "// top
-packet // c0
-A // c1
-{ // c2a
-  // c2b
-u8 a // c4
-, // c5
-}
-    // c6
-packet // c7
-B
-    // c8
-{ u16
-    // c10
-b // c11
-, }
-    // c13
-packet // c14a
-  // c14b
-C { // c16
-u32 // c17a
-  // c17b
-c // c18
-, // c19
-} // c20a
-  // c20b
-root packet
-    // c22
-M // c23a
-  // c23b
-{
-    // c24
-u16 Kc // c26a
-  // c26b
-, // c27a
-  // c27b
-u16
-    // c28
-Kb // c29
-,
-    // c30
-u16 // c31a
-  // c31b
-Ka // c32a
-  // c32b
-, // c33a
-  // c33b
-match Kc // c35a
-  // c35b
-as
-    // c36
-X // c37
-{ 9 // c39
-: // c40
-A // c41
-, // c42
-10 // c43
-: // c44
-B // c45
-, // c46a
-  // c46b
-} // c47a
-  // c47b
-, match // c49
-Kb
-    // c50
-as Y // c52a
-  // c52b
-{ // c53
-2 // c54a
-  // c54b
-: // c55a
-  // c55b
-C ,
-    // c57
-1
-    // c58
-: // c59a
-  // c59b
-A
-    // c60
-,
-    // c61
-}
-    // c62
-,
-    // c63
-match // c64a
-  // c64b
-Ka // c65
-as // c66a
-  // c66b
-Z { 1 // c69
-: // c70
-B , // c72
-} // c73
-, // c74a
-  // c74b
-A // c75a
-  // c75b
-, // c76
-B // c77a
-  // c77b
-, // c78
-C
-    // c79
-, }
-    // c81
-")).
-Eval vm_compute in ("<<<M1563>>>" ++ check (runes_of_ascii "options {
-    string_ = zchar[00];
-}
-
-packet falsey {
-    @lengthOf(float)
-    string o,
-    repeat msg_type,
-    match MetaDataX as _x {
-        3 : Pad,
+    @leftPad()
+    @leftPad('\x00')
+    float32 tag,
+    repeat f32 T `" ++ [28040; 24687; 31867; 22411]%N ++ runes_of_ascii "`,
+    @lengthOf(chars)
+    @calculatedFrom(""" ++ [128512]%N ++ runes_of_ascii """)
+    @calculatedFrom(""a	b"")
+    match calculatedFrom as packetx {
+        ""\n"" : trueish,
+        ["""", 007] : packetx,
+        ""// no comment"" : packetx,
+        [7, 0123456789] : pack,
+        """ ++ [233]%N ++ runes_of_ascii "t" ++ [233]%N ++ runes_of_ascii """ : Packet,
+        // trailing space 
     },
-    leftPad @lengthOf(i8i8),
-    @tag(0123456789)
-    i16 Packet `
-    `,
-    o pack `tab	here`,
-    zchar[10] int,
-    int16 Foo @calculatedFrom(""CRC32"") `u8 x,`,
-    match f32a as u8x {
-        [""{,}""] : T,
-        [
-            ""1"", 65535, 3, 0, ""`tick`"",
-            0123456789, """ ++ [128512]%N ++ runes_of_ascii """, ""a\\""
-        ] : uint8x,
-        255 : a1,
-        ""a	b"" : falsey,
-        """ ++ [28040; 24687]%N ++ runes_of_ascii """ : x,
-        //	t
-        [""packet"", 3] : int,
-    },
-    repeat Foo {
-        zchar[1] body ``,
-        roots rootA,
-        char[0] rootA `doc`,
-    },
-}// `tick` ""quote"" 'q'
-
-options {
+    @calculatedFrom(""\n"")
+    //x
+    repeat u16 As,
 }
 
-options {
-    Header = int16;
-    roots = false;
-    repeatCount = uint8;
-    stringy = ""x y"";
-    leftPad = ""it's"";
-}
-
-MetaData u {
-    string_ Header,
-    zchar[3] i64_,
-}")).
-Eval vm_compute in ("<<<M104>>>" ++ check (runes_of_ascii "
-root packet stringy{ repeat u16
-falsey `
-`
-, u16 Pad,
-    @lengthOf( // packet A { u8 x, }
-x)Logon { repeat
-zchar[65535
-    ]
-Packet`it's` , } ,}packet len {@leftPad( ) repeat metadata { match asx
-    as asx{""a\\"" :
-f32a ,}
-    ,}// " ++ [128512]%N ++ runes_of_ascii " emoji
-,
-uint16  falsey ,body ,repeat
+root packet uint8x {
+    @lengthOf(stringy)
+    string a1,
     // a // b
-    string
-    lengthOf `say ""hi""`
-    , } packet i64_
-{	x
-    ,@lengthOf( i64_ )
-@tag( 7// a // b
-)
+    // 50% %s
+    int16 i64_ `" ++ [28040; 24687; 31867; 22411]%N ++ runes_of_ascii "`,
+    int16 Logon @calculatedFrom(""// no comment""),
+    MetaDataX MetaDataX `it's`,
+    i64_,
+    match matchKey as zchar {
+        ""1"" : As,
+        [0] : f32a,
+        [""x y""] : body,
+        ""it's"" : _x,
+        /// triple
+        [""" ++ [28040; 24687]%N ++ runes_of_ascii """, 007] : matchKey,
+        ""x y"" : x_y_z,
+    },
+    @calculatedFrom(""" ++ [128512]%N ++ runes_of_ascii """)
+    int64 o @lengthOf(body),// `tick` ""quote"" 'q'
+    asx {
+        chars `say ""hi""`,
+        i64 falsey,
+        i8 zchar `two words`,
+        char[255] tag @calculatedFrom(""""),
+    },
+    char[] Pad @lengthOf(charz) `
+    `,
+    @tag(007)
+    @tag(255)
+    repeat u64 x,
+}
+
+packet metadata {
+    match BodyLength as u128 {
+        4294967296 : trueish,
+        10 : _x,
+        ""a\""b"" : int,
+        007 : Logon,
+        """ ++ [233]%N ++ runes_of_ascii "t" ++ [233]%N ++ runes_of_ascii """ : Z9_,
+        // trailing space 
+        [42, 00] : u128,
+    },
+    zchar[0123456789] chars `a\`,
+    match trueish as tag {
+        // @lengthOf(
+        0 : zchar,
+        // @lengthOf(
+    },
+    zchar[4294967296] lengthOf,
+    asx @lengthOf(tag),
+    char[65535] u @lengthOf(x_y_z) `two words`,
+    _x @calculatedFrom(""" ++ [233]%N ++ runes_of_ascii "t" ++ [233]%N ++ runes_of_ascii """) `{ , }`,
+    @tag(3)
+    zchar[255] Header ``,
+    float32 crc,
+    Z9_ @lengthOf(body) `two words`,
+}
+
+root packet f32a {
+    @rightPad()
+    string u8x `say ""hi""`,
+}
+
+options {
+}")).
+Eval vm_compute in ("<<<M4116>>>" ++ check (runes_of_ascii "packet options1 {
+    @rightPad()
+    @lengthOf(As)
     // `tick` ""quote"" 'q'
-    @calculatedFrom(""""
-    )  repeat zchar[
-    1 ] i8i8
-    ,
-    i64
-    i64_ @calculatedFrom(
-    ""\" ++ [233]%N ++ runes_of_ascii """ )`line1
-line2`,
-float//x
-`tab	here` , @calculatedFrom( """ ++ [128512]%N ++ runes_of_ascii """ ) char[] Logon// @lengthOf(
-`` , match  leftPad as stringy {
-    0
-    :float , ""\n""
-    : // trailing space 
-Pad  , } ,
-i8i8 @lengthOf( roots )	, } root packet	i8i8 { tag
-    @lengthOf(T
-) `" ++ [28040; 24687; 31867; 22411]%N ++ runes_of_ascii "` // " ++ [128512]%N ++ runes_of_ascii " emoji
-, }")).
-Eval vm_compute in ("<<<M1432>>>" ++ check (runes_of_ascii "// top
-options // c0
-{ // c1a
-  // c1b
-LittleEndian
-    // c2
-= true ; // c5
-ArrayPrefixLenType = u64 // c8a
-  // c8b
-; // c9a
-  // c9b
-FixedStringPadFromLeft // c10
-= false // c12a
-  // c12b
-;
-    // c13
-} // c14a
-  // c14b
-packet // c15a
-  // c15b
-Quote
-    // c16
-{ // c17
-} // c18
-root
-    // c19
-packet // c20a
-  // c20b
-Order // c21a
-  // c21b
-{ // c22
-i64 Side2 , // c25
-Quote
-    // c26
-, // c27a
-  // c27b
-u32 // c28a
-  // c28b
-Px
+    // c
+    repeat rootA {
+        msg_type @calculatedFrom(""\n"") `line1
+                line2`,
+    },//	t
+    @calculatedFrom(""\n"")
+    @leftPad('0')
+    match tag as f32a {
+        [""\n""] : Z9_,
+        42 : trueish,
+        ""abc"" : a1,
+        [10, """ ++ [233]%N ++ runes_of_ascii "t" ++ [233]%N ++ runes_of_ascii """] : A,
+    },
+    T u8x `" ++ [28040; 24687; 31867; 22411]%N ++ runes_of_ascii "`,
+}
+
+packet Header {
+    chars {
+        zchar[255] Pad @lengthOf(i8i8) `u8 x,`,
+    },
+}
+
+packet u {
+    @lengthOf(options1)
+    int32 repeatCount,
+    match Z9_ as a1 {
+        ""a	b"" : As,
+        [
+            ""{,}"", ""it's"", ""x y"", 0, """ ++ [233]%N ++ runes_of_ascii "t" ++ [233]%N ++ runes_of_ascii """,
+            ""{,}"", 0, 007
+        ] : falsey,
+        """" : MetaDataX,
+        [""" ++ [28040; 24687]%N ++ runes_of_ascii """, 65535, 0123456789, ""a\\""] : float,
+        // " ++ [128512]%N ++ runes_of_ascii " emoji
+        ""CRC32"" : Pad,
+        // " ++ [128512]%N ++ runes_of_ascii " emoji
+        // `tick` ""quote"" 'q'
+        [
+            """ ++ [128512]%N ++ runes_of_ascii """, ""a\""b"", ""x y"", 00, ""a\\"",
+            10, ""packet""
+        ] : leftPad,
+    },
+    // c
+    Header {
+        match uint8x as Packet {
+            1 : pack,
+        },
+    },
+    repeat char[] packetx,
+    Z9_ @lengthOf(f32a),
+    // c
+    @calculatedFrom("""")
+    char repeatCount @calculatedFrom(""// no comment""),
+}
+
+root packet len {
+    repeat Logon rootA `{ , }`,
+    @rightPad('0')
+    zchar[0123456789] calculatedFrom,
+    repeat BodyLength {
+        string a1 `
+                `,
+        Packet Z9_,
+        charz len,
+        char[007] metadata @calculatedFrom(""""),
+    },// c
+    match As as MetaDataX {
+        00 : u,
+        00 : Foo,
+        7 : charz,
+        007 : charz,
+        [42, ""a\""b""] : len,
+    },
+    @leftPad('\x00')
+    zchar[0] body @lengthOf(asx),
+    u32 Pad,
+    @rightPad('\x00')
+    rootA Foo,
+}
+
+options {
+}//")).
+Eval vm_compute in ("<<<M3931>>>" ++ check (runes_of_ascii "options {
+    // c1
+    LittleEndian = false;// c5
+    StringPrefixLenType = u16;
+    // c9
+    ArrayPrefixLenType = u8;// c13a
+    // c13b
+    FixedStringPadFromLeft = true;
+    // c17
+    FixedStringPadChar = ' ';
+}// c22
+
+packet Logon {
+    // c25
+}
+
+// c26
+packet Reject {
     // c29
-, // c30
-match // c31
-Px // c32
-as Body // c34
+    InPx48 {
+        // c31
+        repeat string price,// c35a
+        // c35b
+        u32 msgKind,
+        // c38
+        repeat InSide223 {
+            // c41a
+            // c41b
+            Logon,// c43a
+            // c43b
+            repeat f64 Ref,// c47a
+            // c47b
+            string tag7,
+            // c50
+        },
+        InClordid8 {
+            // c54
+            zchar[5] Qty,
+            // c59
+            u64 x,
+            repeat string lastPx,// c66a
+            // c66b
+        },
+    },// c70
+    Logon,
+    // c72
+    i16 lastPx,
+    repeat char[5] clOrdID,// c81a
+    // c81b
+    zchar[2] Flags,// c86
+    repeat string Side2,
+    // c90
+}
+
+// c91
+root packet Order {
+    // c95
+    uint16 sym,// c98a
+    // c98b
+    zchar[8] Side2,
+    repeat string clOrdID,
+    string tag7,
+    // c110
+    zchar[3] OrderId,// c115a
+    // c115b
+    zchar[4] seqNo,
+    u32 f1,// c123a
+    // c123b
+    u32 Acct @lengthOf(Body),// c129a
+    // c129b
+    match f1 as Body {
+        // c134a
+        // c134b
+        58 : Reject,
+        180 : Logon,
+        // c142a
+        // c142b
+    },// c144
+    u32 Px @calculatedFrom(""CRC32""),
+}// c151a
+// c151b")).
+Eval vm_compute in ("<<<M794>>>" ++ check (runes_of_ascii "root packet	chars
+    { char[] asx@calculatedFrom(	""packet"" // " ++ [128512]%N ++ runes_of_ascii " emoji
+) ,pack _x `crlf
+line`
+,
+    @lengthOf(// trailing space 
+string_ )As{
+    i8
+body @calculatedFrom( ""// no comment""  )// trailing space 
+, i64 msg_type
+    `" ++ [28040; 24687; 31867; 22411]%N ++ runes_of_ascii "`,
+// a // b
+//
+i32 A , } , @leftPad ( // a // b
+'0'
+)
+    i8i8 uint8x `
+`, tag roots// trailing space 
+,repeat  char[  7]
+msg_type
+    , falsey  @calculatedFrom( ""\n"" // `tick` ""quote"" 'q'
+) `a\` , //	t
+} options { leftPad = """" ;
+x = char[
+255  ] ; asx= ' ' }
+packet string_ { repeat f32 body
+, } root
+    packet
+options1
+{ @lengthOf(
+    //x
+    lengthOf )string string_	`line1
+line2`
+,
+@rightPad (
+'0'
+    ) char[] zchar@lengthOf( f32a ) `line1
+line2` , @lengthOf(
+pack)@leftPad
+( ' '
+)
+    repeat x u128
+, @calculatedFrom( ""{,}"" )//x
+match len as roots {
+10 :
+    falsey
+// c
+//	t
+,  ""a\""b""
+    :
+metadata  ,}
+    , i32
+body
+,u64 u8x @lengthOf( x_y_z )
+//
+//	t
+,//	t
+@lengthOf(u128
+)
+zchar[
+/// triple
+// a // b
+00] stringy,
+} packet roots //x
 {
-    // c35
-[ 119 // c37a
-  // c37b
-,
-    // c38
-147
-    // c39
-] : Quote // c42a
-  // c42b
-, } , // c45a
-  // c45b
-u16 // c46a
-  // c46b
-Flags @calculatedFrom( // c48a
-  // c48b
-""CRC32"" ) // c50
-,
-    // c51
-} // c52a
-  // c52b
+    int64 o	, int64 uint8x  , i16 _x , float32 int
+,  charz { char[]
+Packet ,
+int16
+Z9_ `a\`	,  zchar[ 255]tag , }  ,
+//
+// " ++ [27880; 37322]%N ++ runes_of_ascii "
+match
+Pad as stringy { 42 :
+    a1 , }
+// packet A { u8 x, }
+// c
+, x_y_z options1 , crc @calculatedFrom(
+""abc""// " ++ [27880; 37322]%N ++ runes_of_ascii "
+) `crlf
+line`, @tag( 0 )
+    //	t
+    @leftPad
+()u8
+x , }
 ")).
-Eval vm_compute in ("<<<M140>>>" ++ check (runes_of_ascii "options  { }
-MetaData metadata  {	float32 u128 `" ++ [28040; 24687; 31867; 22411]%N ++ runes_of_ascii "` ,
-}packet
-roots {
-i64 uint8x``
-// `tick` ""quote"" 'q'
-// `tick` ""quote"" 'q'
-, @tag(  3) // packet A { u8 x, }
-@tag(
-    0123456789	) stringy @lengthOf(Header )`u8 x,` , f64 u //x
-`tab	here`,  match  u8x as u8x
+Eval vm_compute in ("<<<M3788>>>" ++ check (runes_of_ascii "packet BodyLength {
+    matchKey {
+        chars,
+        match leftPad as options1 {
+            42 : u,
+            // `tick` ""quote"" 'q'
+            0 : T,
+        },
+        char[] Header `line1
+                line2`,
+    },
+    @tag(10)
+    zchar {
+        repeat _x {
+            i8i8,
+        },
+        zchar[00] len @lengthOf(u128),//	t
+        repeat options1,
+        repeat Pad {
+            int64 roots `
+                        `,
+            u64 Header @lengthOf(tag),
+            uint16 roots @calculatedFrom(""" ++ [28040; 24687]%N ++ runes_of_ascii """),
+            match rootA as matchKey {
+                1 : BodyLength,
+                [""1""] : Z9_,
+                ""it's"" : Packet,
+                0 : stringy,
+            },
+        },
+    },
     // `tick` ""quote"" 'q'
-    { 10 : string_ , }, zchar[
-7 ]  u@calculatedFrom( // a // b
-""packet"" ) ,  @leftPad
-    ( ) repeat asx _x
-    ,zchar[ // `tick` ""quote"" 'q'
-7] uint8x
-,body
-{repeat zchar[
-3]
-    As , string Header
+    @lengthOf(Logon)
+    x pack,
+    //
+    @tag(65535)
+    // packet A { u8 x, }
+    repeat o Header `u8 x,`,
+    Header u8x `doc`,
+    @tag(42)
+    // packet A { u8 x, }
+    char[0123456789] lengthOf,
+    float {
+        // c
+        f32a As,
+        repeat matchKey `{ , }`,
+        // 50% %s
+        // " ++ [128512]%N ++ runes_of_ascii " emoji
+    },
+    repeat char[] o,
+    @tag(1)
+    options1 @calculatedFrom(""a	b"") `100% of %d`,
+    float32 int @lengthOf(calculatedFrom),
+}")).
+Eval vm_compute in ("<<<M1292>>>" ++ check (runes_of_ascii "
+packet int
+{ falsey
+{ repeat Header{ As
+    roots `100% of %d` // a // b
+, // trailing space 
+tag
+    x_y_z `line1
+line2` , match zchar
+as
+repeatCount{ ""abc""
+    : _x ,}	,//x
+} , repeatCount @lengthOf(
+    charz ) , repeat char[] calculatedFrom
+    // @lengthOf(
+    `// not a comment` , }
+    ,
+    // " ++ [128512]%N ++ runes_of_ascii " emoji
+    char pack
+    // " ++ [27880; 37322]%N ++ runes_of_ascii "
+    `" ++ [233]%N ++ runes_of_ascii "`
+    , repeat
+    int8
+u128,
+x
+i8i8 , @tag( 007 )char[ 1 ] //	t
+uint8x ,
+    @lengthOf( roots
+)repeat
+    pack trueish ,
+repeat u8x stringy, options1{  match
+    uint8x
+as T { """ ++ [128512]%N ++ runes_of_ascii """ :
+crc ""a\""b"" : u8x , }  , zchar[7 ]
+    BodyLength,} ,@tag( 4294967296
+    //	t
+    )@rightPad
+()
+    // `tick` ""quote"" 'q'
+    u128	`line1
+line2` , }root packet // @lengthOf(
+f32a { @leftPad
+    /// triple
+    (	) match i8i8
+as options1 {// `tick` ""quote"" 'q'
+"""" // trailing space 
+:u8x
+, } ,
+@tag(
+    1 ) repeatCount @calculatedFrom( ""a\""b"" ) ,@lengthOf(
+MetaDataX ) @leftPad( )charz repeatCount `a\`, calculatedFrom { BodyLength @calculatedFrom(
+""a\\"" // c
+) , } ,
+    @lengthOf(zchar ) zchar[	00// " ++ [27880; 37322]%N ++ runes_of_ascii "
+] len
+// 50% %s
+// 50% %s
+`line1
+line2`
+// " ++ [128512]%N ++ runes_of_ascii " emoji
+// a // b
 ,
-    char[] u, }
-, repeat Logon{
-repeat zchar[65535 ] packetx `// not a comment` , }
-, } // packet A { u8 x, }
-MetaData
-msg_type{
-f64
-    crc	`{ , }`
+@tag( 1) i64
+charz,  }")).
+Eval vm_compute in ("<<<M1237>>>" ++ check (runes_of_ascii "// packet A { u8 x, }
+MetaData f32a {/// triple
+char[ 0] i8i8`
+` , f64 a1
+// c
+// 50% %s
+,
+    i32
+rootA `it's`
+, f64  stringy `it's` ,charz /// triple
+packetx	`
+`,	} packet asx{
+repeat u64 metadata
+`u8 x,`
+    ,
+    // 50% %s
+    @lengthOf(  calculatedFrom/// triple
+) repeat options1 {
+BodyLength  {
+// `tick` ""quote"" 'q'
+// 50% %s
+zchar[ 3
+] stringy`doc`
+, //	t
+charz
+// " ++ [27880; 37322]%N ++ runes_of_ascii "
+// " ++ [27880; 37322]%N ++ runes_of_ascii "
+{
+repeat
+    uint16 metadata	`crlf
+line` ,_x	len`100% of %d`,
+int @lengthOf( metadata
+    // a // b
+    ) ,	} ,zchar[ 42 ] i8i8`crlf
+line` ,
+    }
+,
+Foo , repeat
+    msg_type// " ++ [27880; 37322]%N ++ runes_of_ascii "
+, repeat
+    u8
+//
+//	t
+msg_type,
+    // c
+    } ,  @leftPad (' '	) repeat x_y_z {
+    // 50% %s
+    string// " ++ [27880; 37322]%N ++ runes_of_ascii "
+A
+@calculatedFrom(""packet""	) `u8 x,` , } ,uint8 A
+@calculatedFrom( ""CRC32""	)// a // b
+,
+    u8x	x_y_z, @rightPad
+//
+// trailing space 
+(
+'0'
+) match o
+    as
+asx {
+    [65535,// 50% %s
+""a	b"" ] :tag,
+    //	t
+    0 : matchKey , 4294967296 :	o ,
+    ""it's""
+: //	t
+_x // c
+,
+    },repeat // @lengthOf(
+uint64 Header , } MetaData
+uint8x{
+zchar[ 0 ] x_y_z /// triple
 , }
 ")).
-Eval vm_compute in ("<<<M1791>>>" ++ check (runes_of_ascii "
+Eval vm_compute in ("<<<M891>>>" ++ check (runes_of_ascii "MetaData chars{ // @lengthOf(
+falsey As	,char[ // `tick` ""quote"" 'q'
+42 ] o ,// " ++ [128512]%N ++ runes_of_ascii " emoji
+string_ Header ,}
+MetaData falsey {
+zchar[ 0 ]falsey
+`{ , }`, int32 MetaDataX , char[
+255
+    ] Foo , int64
+    u128,char[] u128 , // packet A { u8 x, }
+}
+packet// trailing space 
+metadata  {
+// packet A { u8 x, }
+//	t
+metadata @calculatedFrom( ""`tick`"" ) ,
+    repeat pack roots `line1
+line2` ,  string_ @calculatedFrom(""\n"" ) ,repeat trueish// packet A { u8 x, }
+{ trueish /// triple
+T
+,
+//x
+// `tick` ""quote"" 'q'
+u16
+asx //x
+,  body
+    { repeat _x
+{_x @lengthOf(
+    /// triple
+    i8i8) `say ""hi""`
+    ,
+// a // b
+//
+}, }
+    ,	}// @lengthOf(
+,@calculatedFrom(""a\\""
+) repeat chars { f32a {
+    // c
+    zchar[ 255 ] msg_type , repeat float64 stringy `
+`
+    ,
+    }
+, repeat
+    uint8x
+`tab	here` ,Logon
+{ repeat f64	MetaDataX	,
+    u64// `tick` ""quote"" 'q'
+T	@lengthOf(	body
+) , } ,} , @lengthOf( trueish )
+// " ++ [27880; 37322]%N ++ runes_of_ascii "
+// @lengthOf(
+float64
+_x@calculatedFrom(
+""" ++ [128512]%N ++ runes_of_ascii """ )  ,} MetaData chars {}
+")).
+Eval vm_compute in ("<<<M4356>>>" ++ check (runes_of_ascii "options {
+    lengthOf = zchar[65535];
+    len = char[];
+    packetx = false;
+    len = """ ++ [128512]%N ++ runes_of_ascii """
+}
+
+MetaData i8i8 {
+    uint16 x `
+        `,
+}
+
+// a // b
+/// triple
+root packet _x {
+    repeat char[] Pad,
+    @calculatedFrom(""abc"")
+    char[42] Pad,
+    @leftPad()
+    char[] Pad,
+    zchar[1] BodyLength `{ , }`,
+}
+
+MetaData Foo {
+    x a1,
+    float charz,
+}
+
+root packet lengthOf {
+    @leftPad(' ')
+    x_y_z `say ""hi""`,
+    f64 packetx,
+    @calculatedFrom(""a	b"")
+    string_ {
+        // " ++ [128512]%N ++ runes_of_ascii " emoji
+        o @lengthOf(body),
+        i8i8 charz,
+        u32 _x,// trailing space 
+        char[7] metadata,
+    },
+    asx {
+        match body as float {
+            [7, ""packet"", ""a\""b""] : metadata,
+            0123456789 : repeatCount,
+            3 : crc,
+        },
+    },
+    @tag(0)
+    @leftPad('0')
+    @calculatedFrom(""{,}"")
+    repeat char[] metadata,
+    i16 metadata @calculatedFrom(""" ++ [233]%N ++ runes_of_ascii "t" ++ [233]%N ++ runes_of_ascii """),
+    int16 tag,
+    metadata,
+}")).
+Eval vm_compute in ("<<<M4134>>>" ++ check (runes_of_ascii "packet
+    trueish{ 
+@tag(
+
+    0123456789) string stringy 
+,
+
+repeat
+rootA  { zchar[ 
+42 ]  falsey
+    @calculatedFrom(
+
+    ""x y"" // c
+
+	)
+`two words`
+
+,
+
+}
+,
+    }  //
+  	packet
+
+    As
+{ @tag(
+
+1 )char[] T  , 
+o 
+@lengthOf(
+
+    chars  /// triple
+      )
+
+    ,rootA
+	`line1
+line2`
+,
+repeat
+stringy
+,msg_type
+BodyLength
+    ,
+    char[ 3  ]
+    falsey`doc` //	t
+
+,char[]  pack `u8 x,`	,
+	a1
+
+    @lengthOf(	Z9_
+
+    ),
+	char[]
+
+    pack  @lengthOf(
+
+repeatCount  ) `crlf
+line`
+
+,	@lengthOf(
+
+    Logon
+)
+float { repeatCount  uint8x  ,}
+,}
+
 packet
 
-    Logon 	 //x
-	{
-@calculatedFrom( 
-""a	b"" ) repeat
-options1
+body{@rightPad //x
+( '0' 
+) repeat
+
+    int32
+
+    int, 
+@leftPad
+(
+)
+	@leftPad(' ')
+	f32a
 	,
-@calculatedFrom(
-    ""a\\"") // c
-	char[] 
-options1 `it's`, @tag(
-4294967296 )
 
-    repeat Logon{	match trueish as u128
-    {
-
-""x y""
-        //	t
-	:// c
-
-i64_ , [
-
-    4294967296	,007, 10
-
-    ]
-    :	i8i8
-
-    ,
-    }  ,
-        //
-// @lengthOf(
-  T`u8 x,`  ,	repeat
-uint64
-
-T `u8 x,`
-	,
-} , }  options  // @lengthOf(
-  	{u128	= 	 // trailing space 
-'0'tag=
-	true;Packet=
-    char[ 0123456789] ; Foo = 007
-
-body
-
-    = 
-3
-;
-}packet i64_  {	}
-    //x
-")).
-Eval vm_compute in ("<<<M188>>>" ++ check (runes_of_ascii "packet asx{
-@lengthOf(	falsey
-    //	t
-    ) repeat uint64 charz , repeat // " ++ [128512]%N ++ runes_of_ascii " emoji
-char[] As `it's`
-, }packet
-u8x { @tag(
-    4294967296
+    @lengthOf(  rootA
     )
-@calculatedFrom(
-""`tick`""
-) @calculatedFrom(""abc"" ) repeat // @lengthOf(
-i64 options1 `it's`, match Logon as o {  3 :Z9_ 3:T , 3// c
-:// @lengthOf(
-u128,4294967296: Z9_ , [""""
-,
-10
-    ] : body ,
-    // c
-    """ ++ [233]%N ++ runes_of_ascii "t" ++ [233]%N ++ runes_of_ascii """ : string_
-//
-/// triple
-, } , @tag( 7 )
-uint8x
-    @lengthOf(
+	repeat	pack `tab	here`/// triple
+,	// 50% %s
+	@lengthOf( i8i8
+	)
+
+i64_ ,
+
+    Packet stringy
+`it's`
+
+    ,u32
+	stringy  
+  //
+
+	,@leftPad
+    (' ' )
+
+int	metadata	,
+    }
+")).
+Eval vm_compute in ("<<<M325>>>" ++ check (runes_of_ascii "/// triple
+options
+{/// triple
+zchar= ""// no comment""
     //
-    Foo ), repeat T _x//
-`" ++ [233]%N ++ runes_of_ascii "`
-, }")).
-Eval vm_compute in ("<<<M1878>>>" ++ check (runes_of_ascii "packet Frame {
-    u8 HK,
-    u8 BK,
-    u8 TK,
-    match HK as Hdr {
-        1 : HdrA,
-        2 : HdrB,
-    },
-    match BK as Body {
-        1 : BodyA,
-        2 : BodyB,
-    },
-    match TK as Trl {
-        1 : TrlA,
-    },
-}
-
-packet HdrA {
-    u8 a,
-}
-
-packet HdrB {
-    u16 b,
-}
-
-packet BodyA {
-    u32 c,
-}
-
-packet BodyB {
-    u64 d,
-}
-
-packet TrlA {
-    u8 e,
-}
-
-root packet Msg {
-    Frame,
-    u8 x,
-}")).
-Eval vm_compute in ("<<<M347>>>" ++ check (runes_of_ascii "MetaData packetx {
-// `tick` ""quote"" 'q'
-// `tick` ""quote"" 'q'
-float64 _x , msg_type calculatedFrom // a // b
-`say ""hi""`  , metadata Foo `a\` ,falsey asx `two words` , char[	4294967296 ]calculatedFrom ,
-int32 options1 , }options {
-crc
-    =
-    '\x00' ;
-charz = ""it's"" ; BodyLength =
-    ""\" ++ [233]%N ++ runes_of_ascii """ body =//
-int8
-    ; }
-MetaData len{
-    char[ 42 ] Logon`tab	here`,	}")).
-Eval vm_compute in ("<<<M1869>>>" ++ check (runes_of_ascii "options {
-}
-
-packet chars {
-    int64 i8i8 @calculatedFrom(""// no comment"") `line1
-    line2`,
-    @calculatedFrom(""`tick`"")
-    _x `" ++ [28040; 24687; 31867; 22411]%N ++ runes_of_ascii "`,
-    match float as BodyLength {
-        //
-        """ ++ [28040; 24687]%N ++ runes_of_ascii """ : x_y_z,
-        [
-            7, 10, """ ++ [233]%N ++ runes_of_ascii "t" ++ [233]%N ++ runes_of_ascii """, 1, ""x y"",
-            3
-        ] : i64_,
-    },// a // b
-}
-
-packet uint8x {
-}// " ++ [27880; 37322]%N)).
-Eval vm_compute in ("<<<M338>>>" ++ check (runes_of_ascii "
-MetaData u8x
-{
-stringy x_y_z , }
-root packet MetaDataX
-{
-len
-    @calculatedFrom(""`tick`"")// trailing space 
-`tab	here`
-    ,repeat
-falsey{
-T@calculatedFrom( ""\" ++ [233]%N ++ runes_of_ascii """
-) ,/// triple
-float32 options1 `tab	here` , // a // b
-},	@lengthOf( T
-)repeat
-float64// trailing space 
-a1
-`{ , }` ,}
-")).
-Eval vm_compute in ("<<<M1542>>>" ++ check (runes_of_ascii "packet u {
-    @calculatedFrom(""CRC32"")
-    repeat zchar[1] x_y_z `crlf
-        line`,
-    @leftPad()
-    zchar[255] crc,
-}
-
-root packet MetaDataX {
-    @tag(255)
-    rootA,
-}
-
-packet f32a {
-    @lengthOf(packetx)
-    uint8 Z9_ @calculatedFrom(""CRC32""),
-}")).
-Eval vm_compute in ("<<<M286>>>" ++ check (runes_of_ascii "options{
-} options {
-    } root packet uint8x { @leftPad ('\x00'
-    )
-    match uint8x as	pack {[ ""\n"" ,
-""a	b""
-    ,
-10,
-    // " ++ [27880; 37322]%N ++ runes_of_ascii "
-    255 ,
-// " ++ [27880; 37322]%N ++ runes_of_ascii "
-//	t
-""a	b"" , //x
-"""" ] // " ++ [27880; 37322]%N ++ runes_of_ascii "
-:
-    repeatCount
-    , // c
-}
-    ,// " ++ [128512]%N ++ runes_of_ascii " emoji
-} 	 ")).
-Eval vm_compute in ("<<<M439>>>" ++ check (runes_of_ascii "options
-{
-matchKey = 42/// triple
-x='0' ;
-// packet A { u8 x, }
-//
-charz
-repeat
-// packet A { u8 x, }
-// trailing space 
-true  ; } MetaData BodyLength
-{
-uint8
-pack,zchar[ 1]float ,  float32 x_y_z `` ,u32
-_x,i16 body  , }
-")).
-Eval vm_compute in ("<<<M467>>>" ++ check (runes_of_ascii "options
-{
-matchKey = 42/// triple
-x='0' ;
-// packet A { u8 x, }
-//
-charz
-=
-// packet A { u8 x, }
-// trailing space 
-true  ; } MetaData BodyLength
-{ {
-uint8
-pack,zchar[ 1]float ,  float32 x_y_z `` ,u32
-_x,i16 body  , }
-")).
-Eval vm_compute in ("<<<M582>>>" ++ check (runes_of_ascii "options
-{
-matchKey = 42/// triple
-x='0' ;
-// packet A { u8 x, }
-//
-charz
-=
-// packet A { u8 x, }
-// trailing space 
-true  ; } MetaData BodyLength
-{
-uint8
-pack,zchar[ 1]float ,  float32 ~x_y_z `` ,u32
-_x,i16 body  , }
-")).
-Eval vm_compute in ("<<<M528>>>" ++ check (runes_of_ascii "options
-{
-matchKey = 42/// triple
-x='0' ;
-// packet A { u8 x, }
-//
-charz
-=
-// packet A { u8 x, }
-// trailing space 
-true  ; } MetaData BodyLength
-{
-uint8
-pack,zchar[ 1]float ,  float32 x_y_z `` u32,
-_x,i16 body  , }
-")).
-Eval vm_compute in ("<<<M531>>>" ++ check (runes_of_ascii "options
-{
-matchKey = 42/// triple
-x='0' ;
-// packet A { u8 x, }
-//
-charz
-=
-// packet A { u8 x, }
-// trailing space 
-true  ; } MetaData BodyLength
-{
-uint8
-pack,zchar[ 1]float ,  float32 x_y_z `` ,
-_x,i16 body  , }
-")).
-Eval vm_compute in ("<<<M246>>>" ++ check (runes_of_ascii "packet a1 {//	t
-} root packet float {char[] pack ,
-@tag(
-65535 ) u16 string_
-// trailing space 
-// c
-, repeat rootA	{
-// `tick` ""quote"" 'q'
-//x
-repeat
-    asx charz
-`a\`, }
-    // `tick` ""quote"" 'q'
-    ,}
-")).
-Eval vm_compute in ("<<<M1711>>>" ++ check (runes_of_ascii "options {
-    FixedStringPadChar = '0';
-}
-
-packet Q {
-    zchar[4] z,
-    @rightPad('\x00')
-    char[3] n,
-    char[5] d,
-}
-
-root packet R {
-    Q,
-    zchar[8] top,
-    repeat zchar[2] zs,
-}")).
-Eval vm_compute in ("<<<M670>>>" ++ check (runes_of_ascii "// c
-packet i64_ {	char[] calculatedFrom , } packet
-trueish  {@calculatedFrom(
-""a\\"" ) o { { i32 falsey@lengthOf( uint8x ),
-} , } // `tick` ""quote"" 'q'
-options {// c
-Z9_ = ' '//
-}
-")).
-Eval vm_compute in ("<<<M710>>>" ++ check (runes_of_ascii "// c
-packet i64_ {	char[] calculatedFrom , } packet
-trueish  {@calculatedFrom(
-""a\\"" ) o { i32 falsey@lengthOf( uint8x )
-} , } // `tick` ""quote"" 'q'
-options {// c
-Z9_ = ' '//
-}
-")).
-Eval vm_compute in ("<<<M716>>>" ++ check (runes_of_ascii "// c
-packet i64_ {	char[] calculatedFrom , } packet
-trueish  {@calculatedFrom(
-""a\\"" ) o { i32 falsey@lengthOf( uint8x ),
-} , } // `tick` ""quote"" 'q'
-options {// c
-Z9_")).
-Eval vm_compute in ("<<<M1825>>>" ++ check (runes_of_ascii "packet A {
-    u16 len @lengthOf(body) `a
-            b
-          c`,
-    u32 crc @calculatedFrom(""CRC32"") `a
-            b
-          c`,
-    string body,
-}")).
-Eval vm_compute in ("<<<M215>>>" ++ check (runes_of_ascii "MetaData tag { zchar[ // a // b
-007 ]BodyLength ``
+    leftPad = char[]
     // packet A { u8 x, }
-    , } root packet MetaDataX {
-string_
-    @lengthOf(
-Header) ,}
+    i8i8= ' ' ; T  =
+    //	t
+    '0' ;}packet //
+Logon
+// c
+// " ++ [128512]%N ++ runes_of_ascii " emoji
+{  }	packet
+u128 {
+    // `tick` ""quote"" 'q'
+    @rightPad
+( '\x00' //x
+) Z9_ ,} packet Packet {uint64
+    As
+    , matchKey
+@calculatedFrom( """ ++ [28040; 24687]%N ++ runes_of_ascii """ ) ,@tag(	0
+) @lengthOf( Logon) repeat x {repeat char[] leftPad // " ++ [27880; 37322]%N ++ runes_of_ascii "
+`u8 x,` ,
+    match
+    Logon
+    as falsey
+{
+    0123456789:calculatedFrom ,
+    // trailing space 
+    7 :
+BodyLength ,	""a\\""
+    : repeatCount ,[42 ] : falsey	, """ ++ [128512]%N ++ runes_of_ascii """: u128
+, [
+65535,
+3, ""abc"",	007 , ""1"" , 3 ]
+: Packet
+    },
+    //x
+    } , zchar[ 4294967296 ]lengthOf`// not a comment` // " ++ [27880; 37322]%N ++ runes_of_ascii "
+,@lengthOf( stringy
+) char[] len
+    //	t
+    `` , @calculatedFrom(""it's"" ) zchar[65535 ]roots @calculatedFrom( ""x y""
+    ) `u8 x,` ,uint64 Header , }
 ")).
-Eval vm_compute in ("<<<M1496>>>" ++ check (runes_of_ascii "
+Eval vm_compute in ("<<<M700>>>" ++ check (runes_of_ascii "packet
+trueish
+    { @tag( 255) int32
+    tag `line1
+line2` , repeat Z9_ x_y_z `it's`, @lengthOf(	float
+)
+    i32 A
+    ,trueish	{ char[4294967296]
+// c
+/// triple
+a1 @calculatedFrom( ""1"" )
+    , T
+    {	match Logon // @lengthOf(
+as _x { ""abc"": Packet
+,0 :
+As , ""\" ++ [233]%N ++ runes_of_ascii """ // trailing space 
+:
+    f32a ""a	b""
+    :Logon
+[// packet A { u8 x, }
+""a\""b"" ]
+: u8x ,
+65535
+    :	u , } , repeat Foo
+    { char[ //	t
+65535 ]  zchar
+@lengthOf(
+    x_y_z ) `tab	here`
+    ,
+} ,float32	i64_@calculatedFrom( ""packet"" ) `tab	here`,
+float64 _x, }
+,
+    roots// `tick` ""quote"" 'q'
+{match	options1 as As {
+    10
+    :
+    float ,
+    // c
+    } , }
+// c
+//	t
+,
+    T{float @lengthOf( // `tick` ""quote"" 'q'
+len  )// @lengthOf(
+, }	, } ,u32 i8i8
+    , char[
+    0123456789]A`// not a comment`,Foo @lengthOf(
+    float ) `it's`, }
+")).
+Eval vm_compute in ("<<<M1058>>>" ++ check (runes_of_ascii "packet Z9_
+{@calculatedFrom(""{,}"" )
+repeat
+    Packet { len {
+// 50% %s
+// c
+o
+    roots , match string_ as repeatCount {[""`tick`""
+    , """ ++ [128512]%N ++ runes_of_ascii """
+,
+    7 , """ ++ [233]%N ++ runes_of_ascii "t" ++ [233]%N ++ runes_of_ascii """ , 10,""packet"" ,// @lengthOf(
+""\" ++ [233]%N ++ runes_of_ascii """ ] : roots , [ 10
+,1
+] :
+    leftPad,}
+, u T, zchar[
+3 ]float
+    // @lengthOf(
+    `{ , }`
+    , } ,  uint8 Foo@lengthOf( charz ) ,}, @lengthOf( Packet)
+//x
+// trailing space 
+zchar[
+007 ] /// triple
+x_y_z  @calculatedFrom(//	t
+""" ++ [128512]%N ++ runes_of_ascii """ ) `a\`
+    , As uint8x, // `tick` ""quote"" 'q'
+rootA
+, } packet Z9_ {
+// c
+// `tick` ""quote"" 'q'
+@calculatedFrom( /// triple
+""x y"")repeat options1 `" ++ [28040; 24687; 31867; 22411]%N ++ runes_of_ascii "` , match
+    len
+as
+f32a
+// a // b
+//x
+{ 007:
+metadata ,[
+    ""a\\"" ] :
+float , [ 65535	] :
+    stringy,	}
+// " ++ [27880; 37322]%N ++ runes_of_ascii "
+// a // b
+,
+    // c
+    i32 // " ++ [128512]%N ++ runes_of_ascii " emoji
+A @calculatedFrom(""" ++ [128512]%N ++ runes_of_ascii """ ) , }
+options{ }
+")).
+Eval vm_compute in ("<<<M3558>>>" ++ check (runes_of_ascii "options {
+    LittleEndian = true;
+    ArrayPrefixLenType = u32;
+}
+packet Order {
+    repeat u64 Acct,
+    i16 price,
+}
+packet Logon {
+    zchar[3] venue,
+    string Flags,
+    repeat InQty82 {
+        string Px,
+    },
+    repeat char[1] clOrdID,
+}
+packet Cancel {
+    int32 Tail,
+    repeat Logon,
+    repeat InFlags55 {
+        uint64 Note,
+        repeat InQty28 {
+            char[] msgKind,
+            char[7] OrderId,
+        },
+        char[] Px,
+    },
+    int16 Ref,
+}
+root packet Leg {
+    repeat Logon,
+    char[] venue,
+    u16 Flags,
+    i16 Tail,
+    repeat Cancel,
+    u8 Side2,
+    match Side2 as Body {
+        151 : Logon,
+        148 : Order,
+        162 : Cancel,
+    },
+    u16 x @calculatedFrom(""CR\
+C32""),
+}
+")).
+Eval vm_compute in ("<<<M161>>>" ++ check (runes_of_ascii "packet int// @lengthOf(
+{ f64
+    // a // b
+    trueish ,
+    @calculatedFrom( """ ++ [233]%N ++ runes_of_ascii "t" ++ [233]%N ++ runes_of_ascii """) // `tick` ""quote"" 'q'
+match// " ++ [128512]%N ++ runes_of_ascii " emoji
+trueish as metadata {
+    ""packet"": Logon  ,  },char[] rootA@calculatedFrom( """ ++ [128512]%N ++ runes_of_ascii """ ) `a\`
+, @calculatedFrom(
+    ""abc"") f64 roots, @rightPad  ( '\x00') char[	4294967296
+    // trailing space 
+    ]  zchar
+/// triple
+// " ++ [27880; 37322]%N ++ runes_of_ascii "
+`tab	here` ,  @rightPad
+    ('\x00'
+    )
+float64
+msg_type	@calculatedFrom( ""x y"" ) `a\`
+    ,
+@leftPad(
+    '0') @calculatedFrom(""{,}""
+)  match Header as o { 3 :
+Header , ""a\\"" : a1 [
+65535
+,
+""\n""
+//	t
+// a // b
+]
+    :	len	,[ 255, 1 ] // `tick` ""quote"" 'q'
+:Foo,""// no comment"":	string_ }, } packet x { }
+options { // trailing space 
+Header= """ ++ [128512]%N ++ runes_of_ascii """ }
+")).
+Eval vm_compute in ("<<<M3652>>>" ++ check (runes_of_ascii "
+packet _x
+{
+	@tag(
 
-  options 
+255
+    )
+Header
+
+    @calculatedFrom( ""`tick`""  )
+,
+
+@tag(
+	00
+	)  @lengthOf(  metadata )
+
+    repeat	x_y_z	repeatCount	`crlf
+line`
+
+    // trailing space 
+    	// @lengthOf(
+,	//x
+  @rightPad
+( ' ') //x
+string zchar `
+` , 
+char[] T ,
+	match
+Z9_
+
+    as 
+string_
+    { 0  :
+//	t
+    	pack ,
+
+0123456789
+    :	Pad
+7:
+
+float
+    // packet A { u8 x, }
+		//x
+  [
+    0
+, 0123456789
+,3
+]
+: 
+        //
+    As [
+255
+
+, 00 ]  :
+
+    BodyLength,}
+    , 
+repeat BodyLength `doc`	,  // `tick` ""quote"" 'q'
+
+f32a Packet
+	`doc`
+
+    , 
+calculatedFrom 
+@calculatedFrom( ""// no comment"" )	`crlf
+line` 
+, u16 zchar, repeat u128
+,
+	} ")).
+Eval vm_compute in ("<<<M4290>>>" ++ check (runes_of_ascii "MetaData x {
+    zchar[65535] Pad,
+    int16 chars `
+        `,
+    char[] pack,
+    BodyLength x,
+    u8 metadata,// " ++ [27880; 37322]%N ++ runes_of_ascii "
+    f32 options1,
+}
+
+MetaData _x {
+    f32a len,
+    string u,
+}
+
+packet body {
+    @tag(7)
+    @rightPad('\x00')
+    @lengthOf(uint8x)
+    match float as string_ {
+        ""abc"" : stringy,
+        10 : i8i8,
+    },
+    @leftPad(' ')
+    uint8 calculatedFrom @calculatedFrom(""CRC32""),
+    @lengthOf(crc)
+    u {
+        match chars as rootA {
+            // `tick` ""quote"" 'q'
+            // 50% %s
+            007 : _x,
+            ""\n"" : u,
+            ""abc"" : calculatedFrom,
+        },
+    },
+    leftPad f32a,
+}")).
+Eval vm_compute in ("<<<M873>>>" ++ check (runes_of_ascii "packet  msg_type { repeat uint8 BodyLength `" ++ [233]%N ++ runes_of_ascii "` , @tag( // a // b
+65535 )  MetaDataX { Packet {x_y_z rootA `u8 x,`
+, } ,
+    } , } packet crc
+{ @rightPad (	' ' ) stringy{ i32 Logon
+    , f32a `" ++ [28040; 24687; 31867; 22411]%N ++ runes_of_ascii "`,  uint64 repeatCount
+    , }, @leftPad ( '0'
+) @calculatedFrom( ""a\""b"" ) uint8
+    o	`" ++ [28040; 24687; 31867; 22411]%N ++ runes_of_ascii "`
+    ,
+    }
+    packet
+// packet A { u8 x, }
+// trailing space 
+leftPad{
+@lengthOf(	float )repeat char[]
+options1 , i16  Pad , @tag( 0) char[
+    42 //
+] options1 `tab	here` , @leftPad ( ) repeat string_ len  `a\` //
+, }
+    options { string_ = u8 pack = string roots = // c
+""\" ++ [233]%N ++ runes_of_ascii """;
+trueish = ""x y""charz=	""" ++ [233]%N ++ runes_of_ascii "t" ++ [233]%N ++ runes_of_ascii """ ;
+    }
+
+")).
+Eval vm_compute in ("<<<M769>>>" ++ check (runes_of_ascii "
+MetaData u128{ } options
+// packet A { u8 x, }
+//x
+{
+Header=
+    '0' ;metadata
+=
+    char[00 // @lengthOf(
+]
+// @lengthOf(
+// c
+;}  packet  x_y_z{ match //	t
+A
+as MetaDataX
+{ ""1"":roots
+    , [ 1 ] : asx,
+""" ++ [28040; 24687]%N ++ runes_of_ascii """
+: string_
+//
+// `tick` ""quote"" 'q'
+, 007
+: zchar , ""{,}"":
+u8x , ""\" ++ [233]%N ++ runes_of_ascii """ :
+    body	, }
+, repeat int32 x_y_z ,
+repeat u64 len
+`it's`
+    //
+    ,
+lengthOf
+{uint16
+A
+    // 50% %s
+    `line1
+line2`	, } , repeat i8	metadata
+    ,
+    //
+    @tag( 42) int16 x`line1
+line2`
+, string
+    As @lengthOf(roots
+)
+    ,
+@tag( 7  ) Packet
+    chars ,char[42
+]// " ++ [27880; 37322]%N ++ runes_of_ascii "
+roots ,  } //x")).
+Eval vm_compute in ("<<<M3976>>>" ++ check (runes_of_ascii "MetaData // c
+    falsey {	char[
+255] 	 // " ++ [128512]%N ++ runes_of_ascii " emoji
+	trueish `{ , }` // trailing space 
+	  , } 	 // packet A { u8 x, }
+MetaData
+    // packet A { u8 x, }
+  /// triple
+falsey
+    { u32
+
+    u8x,}	MetaData
+
+a1
+
+    {
+}packet 
+u8x 
+	// @lengthOf(
+    	{ 
+match	Z9_	as stringy 
+
+// " ++ [128512]%N ++ runes_of_ascii " emoji
 { 
-roots  //x
+1
+: 
+_x
 
-	=
+    ,  //	t
+	[  255
+	,
 
-""packet""
-;
+    0]
+	:
+
+i8i8  ,//x
+  65535: msg_type
+
+, 0123456789: T ,} ,
+
+@rightPad
+(
+    '0'  )
+char[]
+
+    pack
+	@calculatedFrom(""a\""b"" )  , len
+	@lengthOf(
+
+_x
+    // `tick` ""quote"" 'q'
+  // @lengthOf(
+    )
+
+    `" ++ [233]%N ++ runes_of_ascii "`
+
+,  }")).
+Eval vm_compute in ("<<<M71>>>" ++ check (runes_of_ascii "packet calculatedFrom {zchar[ 255 ]
+    //	t
+    BodyLength , @tag(// " ++ [27880; 37322]%N ++ runes_of_ascii "
+42 )	match Logon	as
+trueish {  [	""\n"" , ""it's"" ] :
+    x_y_z ""\" ++ [233]%N ++ runes_of_ascii """ :matchKey
+,
+    007
+: As [ 007,""\n"" ,
+42
+,  0 /// triple
+,""packet""
+, ""a	b"" ]
+: x_y_z , [ ""CRC32"" //x
+] :repeatCount
+    ,""\" ++ [233]%N ++ runes_of_ascii """ :
+float, } ,@leftPad (
+    ) repeat trueish {
+    zchar[ 255] x_y_z `a\`, _x { // @lengthOf(
+char[4294967296 ]
+i64_, // 50% %s
+zchar[ 4294967296
+] leftPad
+// c
+// " ++ [128512]%N ++ runes_of_ascii " emoji
+, }
+//x
+//	t
+, Foo // c
+, options1 @lengthOf( Packet)`two words`
+    ,
+} ,} root packet body { }")).
+Eval vm_compute in ("<<<M1192>>>" ++ check (runes_of_ascii "
+root packet  a1{uint8x @lengthOf(  rootA ),
+    // a // b
+    char[
+0123456789 ]// a // b
+trueish `{ , }` , @calculatedFrom( ""x y""
+)@tag(
+    0
+// `tick` ""quote"" 'q'
+// " ++ [128512]%N ++ runes_of_ascii " emoji
+) @calculatedFrom(  ""x y"" )
+    match T
+    as
+// c
+//	t
+int  {
+    [ 65535 , ""abc""  , ""// no comment""	,	255 ] : MetaDataX	,
+0 : chars ,
+    65535: a1 ""1""
+:Pad , ""{,}"" : asx
+, 00 : Foo
+// `tick` ""quote"" 'q'
+// packet A { u8 x, }
+,
+} , asx  { repeat Foo // a // b
+,
+    trueish ,
+},
+}
+    // " ++ [128512]%N ++ runes_of_ascii " emoji
+    packet chars  { } packet
+    a1 {} 	 ")).
+Eval vm_compute in ("<<<M4117>>>" ++ check (runes_of_ascii "
+
+  options	{ 
+pack  // @lengthOf(
+= false 
+//
+	;
+i64_=	""1""
 
     len
 
-=
+    = ' '
+	} 
+// @lengthOf(
+// " ++ [27880; 37322]%N ++ runes_of_ascii "
+		packet	Z9_
+    {
+    repeat
+    char[
 
-    0;
-crc
-=
+    1
+]
+i8i8`
+`
 
-    zchar[ 65535
+    ,@lengthOf( crc  )	options1 // a // b
+  { repeat
+char[]f32a `{ , }` ,
+
+    match
+
+uint8x
+	as _x
+
+    {	""packet""
+    : charz	, 
+""\" ++ [233]%N ++ runes_of_ascii """:
+	trueish
+
+, [	007,
+
+""abc""	]:
+i64_ 
+, 
+007  :
+
+o
+,4294967296 
+// c
+
+  : options1 ,
+	}	,
+	repeat 
+uint8x
+
+, }
+,
+
+    char[ 65535 ]repeatCount`100% of %d`, // a // b
+		}
+")).
+Eval vm_compute in ("<<<M4189>>>" ++ check (runes_of_ascii "
+root
+	packet packetx
+{ char[ 255 
+// c
+	] 
+T
+    ,
+    @tag(
+00 ) 
+    // packet A { u8 x, }
+	  len {
+string
+repeatCount
+
+`two words`
+	,repeat
+	Logon u 
+, 
+uint64 
+lengthOf
+	, 	 /// triple
+      char[]
+
+Logon
+	`{ , }`, },
+
+    repeat u64  asx	, 
+@calculatedFrom(""a\""b"" 
+
+//
+	// c
+
+)
+repeat
+
+int8 MetaDataX ,
+    @calculatedFrom(""abc""
+)
+uint64  tag `// not a comment`
+, @tag(
+255
+)
+i8
+len
+, 	 // packet A { u8 x, }
+  uint8
+
+    chars `it's`	,
+
+}
+")).
+Eval vm_compute in ("<<<M3525>>>" ++ check (runes_of_ascii "
+
+  packet
+    Frame
+
+    {
+
+    u8
+
+    HK
+	, 
+u8
+
+BK, 
+u8
+TK 
+,  match HK
+as
+Hdr
+
+    { 1 :HdrA 
+,
+2: HdrB
+,  }
+    , match 
+BK as
+
+    Body { 
+1
+
+: 
+BodyA
+, 2:
+	BodyB,	}
+	, match
+TK
+as
+Trl
+
+{  1
+    : TrlA
+	,	} ,
+}  packet	HdrA
+{
+u8
+
+    a  ,}  packet HdrB{
+u16
+
+b
+, 
+}
+
+    packet
+    BodyA {
+
+    u32
+    c
+	, } packet BodyB { 
+u64 d
+
+,} packet
+
+TrlA	{
+u8
+e
+    ,
+	} root
+
+    packet
+
+    Msg {	Frame,u8 
+x
+,
+} ")).
+Eval vm_compute in ("<<<M3312>>>" ++ check (runes_of_ascii "options { // c1
+u // c2
+=
+    // c3
+00
+    // c4
+stringy // c5
+=
+    // c6
+'0' // c7
+} // c8a
+  // c8b
+packet // c9a
+  // c9b
+stringy // c10
+{ // c11a
+  // c11b
+}
+    // c12
+MetaData // c13a
+  // c13b
+repeatCount // c14a
+  // c14b
+{
+    // c15
+MetaDataX
+    // c16
+leftPad , // c18a
+  // c18b
+string // c19a
+  // c19b
+body // c20
+`
+` // c21
+,
+    // c22
+metadata // c23a
+  // c23b
+options1 // c24
+,
+    // c25
+} // c26a
+  // c26b
+")).
+Eval vm_compute in ("<<<M224>>>" ++ check (runes_of_ascii "packet
+    //
+    trueish//	t
+{ @leftPad  ( '\x00'
+    )falsey zchar
+, i32 u	``, match falsey as
+    u8x	{ 1 : int ,3:
+i64_ , [
+0123456789
+// `tick` ""quote"" 'q'
+// c
+] : leftPad , [
+    4294967296 ] : calculatedFrom ""CRC32"" : body  0
+:	lengthOf , } //x
+, char[] As ,
+    repeat leftPad
+{	Foo ,} , float32 Pad@calculatedFrom( ""a	b""
+    )
+    `it's`
+    ,repeat
+f32
+// a // b
+// a // b
+options1 `doc` , zchar A , }
+
+")).
+Eval vm_compute in ("<<<M4135>>>" ++ check (runes_of_ascii "
+packet	/// triple
+  roots
+    {
+
+    a1 `{ , }`,  // 50% %s
+@tag(	0123456789) 	 // " ++ [128512]%N ++ runes_of_ascii " emoji
+    @calculatedFrom(
+
+""" ++ [128512]%N ++ runes_of_ascii """
+    // packet A { u8 x, }
+    ) 
+match
+    metadata
+
+    as  x
+
+{  ""it's""
+    : 
+
+    //
+	  i8i8
+	0123456789 :
+
+    i64_[  ""\n"" , 
+""1""]  :
+    pack
+65535
+:
+
+calculatedFrom,
+	007 :
+Header
+    ""it's"" :
+packetx 
+} , // " ++ [128512]%N ++ runes_of_ascii " emoji
+    @rightPad
+    ('\x00'
+
+)f64 lengthOf `it's`
+,
+	}")).
+Eval vm_compute in ("<<<M1346>>>" ++ check (runes_of_ascii "root	packet Z9_
+{ @calculatedFrom( """ ++ [28040; 24687]%N ++ runes_of_ascii """ )
+@tag( 0 )
+repeat char[
+255 ]
+    u128`tab	here` ,
+}
+    root
+    //
+    packet leftPad
+    {
+match  Logon as
+    T{ [007 ] // `tick` ""quote"" 'q'
+: MetaDataX,
+[ 1 ,
+10 ,""""// " ++ [27880; 37322]%N ++ runes_of_ascii "
+,	4294967296, 4294967296
+,""" ++ [128512]%N ++ runes_of_ascii """ ]:
+    f32a
+00 // 50% %s
+: trueish , ""\n"" :  int
+,
+// c
 /// triple
+[ ""\" ++ [233]%N ++ runes_of_ascii """]  :
+A	,[
+65535
+, ""a	b""
+    ] :
+    lengthOf ,} , } // c")).
+Eval vm_compute in ("<<<M1221>>>" ++ check (runes_of_ascii "packet Pad	{
+// @lengthOf(
+/// triple
+@tag(
+    1 ) @leftPad (
+    '0' ) repeat zchar[ 10 ] Packet
+    ,uint32 BodyLength `100% of %d` ,	repeat char[ 10 ]
+    Z9_ ,@leftPad ( '0'
+)
+    repeat Foo a1 ,char[
+    42
+]  repeatCount `line1
+line2`
+// packet A { u8 x, }
+// trailing space 
+, @rightPad  ( ) char[] // packet A { u8 x, }
+crc,pack
+@calculatedFrom( ""\" ++ [233]%N ++ runes_of_ascii """ ) ,
+    }
+")).
+Eval vm_compute in ("<<<M4393>>>" ++ check (runes_of_ascii "options {
+    // @lengthOf(
+    float = char[];
+    T = false;
+    A = char[];
+    options1 = true;
+    matchKey = f64;
+}
+
+MetaData u8x {
+    crc msg_type,
+    repeatCount Pad `// not a comment`,
+    uint32 tag `" ++ [28040; 24687; 31867; 22411]%N ++ runes_of_ascii "`,
+    int32 repeatCount,
+    packetx falsey,
+}
+
+options {
+    trueish = string;
+    i64_ = ""a\\""
+    i64_ = int64;
+    lengthOf = string;
+}")).
+Eval vm_compute in ("<<<M1279>>>" ++ check (runes_of_ascii "//x
+packet
+    Logon{
+int64 zchar , @rightPad
+( '\x00' )
+rootA len, float64 Foo `doc` , repeat // c
+Header	, repeat packetx	lengthOf , repeat roots { repeat
+f64 lengthOf `a\` ,
+}
+, } MetaData crc
+{ uint32 A
+    ,
+string_ packetx,
+    i64 // " ++ [27880; 37322]%N ++ runes_of_ascii "
+_x
+    // a // b
+    `say ""hi""`
+    ,char[ 10] Foo `u8 x,`
+,f32	options1 `a\` , } // @lengthOf(")).
+Eval vm_compute in ("<<<M3928>>>" ++ check (runes_of_ascii "
+packet msg_type
+
+{
+	@calculatedFrom(""1"") 
+  // `tick` ""quote"" 'q'
+	// @lengthOf(
+@lengthOf(
+u8x) @rightPad ( ' '
+	)
+    pack	rootA
+
+,
+repeat char[ 	 // @lengthOf(
+4294967296
+
+] u ,
+
+    @lengthOf(
+    Packet 
+// @lengthOf(
+    ) @lengthOf(falsey
+// a // b
+  // " ++ [27880; 37322]%N ++ runes_of_ascii "
+  )  @lengthOf(
+BodyLength )
+
+    repeat	float64 
+pack ,	}")).
+Eval vm_compute in ("<<<M3645>>>" ++ check (runes_of_ascii "packet float {
+    roots `" ++ [28040; 24687; 31867; 22411]%N ++ runes_of_ascii "`,
+    @tag(0123456789)
+    // packet A { u8 x, }
+    @lengthOf(calculatedFrom)
+    @calculatedFrom("""")
+    T ``,
+    @leftPad(' ')
+    repeat Logon {
+        // trailing space 
+        string matchKey @lengthOf(i8i8),
+        repeat i64_,
+    },
+    repeat uint8 u8x `100% of %d`,
+}")).
+Eval vm_compute in ("<<<M4288>>>" ++ check (runes_of_ascii "
+packet // packet A { u8 x, }
+
+repeatCount
+
+    {	// packet A { u8 x, }
+@leftPad (	'\x00'
+
+) repeat
+
+u8x
+    MetaDataX
+    `crlf
+line`  ,
+repeat
+
+char[]	MetaDataX
+
+    ,
+u64
+
+uint8x 
+@calculatedFrom(
+""a\""b"" 
+// c
+
+// packet A { '\x01'u8 x, }
+    	)
+
+`tab	here`
+, 	 //
+    }
+MetaData
+pack {	}
+")).
+Eval vm_compute in ("<<<M4519>>>" ++ check (runes_of_ascii "options
+	{
+
+    len
+=  //
+  i32
+    ;  }  options
+	{i64_
+=
+' '
+
+Foo  = float32  ;chars
+=  ""a\""b""
+;
+    roots  =
+	00  }packet
+rootA {
+	    // " ++ [128512]%N ++ runes_of_ascii " emoji
+/// triple
+    uint64
+
+o
+	/// triple
+
+,repeat	string 
+Packet
+,
+	@leftPad
+    (
+)
+
+leftPad@calculatedFrom( ""CRC32"" ),/// triple
+    	}")).
+Eval vm_compute in ("<<<M1887>>>" ++ check (runes_of_ascii "packet	packetx { // trailing space 
+x_y_z
+{
+string
+charz ,
+string string x// @lengthOf(
+`two words`
+    ,  u8x { // `tick` ""quote"" 'q'
+charz `100% of %d` // packet A { u8 x, }
+,}// " ++ [27880; 37322]%N ++ runes_of_ascii "
+,} , }
+    // a // b
+    packet metadata {  @leftPad ( '0') repeat i32 options1 ,u64 uint8x , }
+")).
+Eval vm_compute in ("<<<M1949>>>" ++ check (runes_of_ascii "packet	packetx { // trailing space 
+x_y_z
+{
+string
+charz ,
+string x// @lengthOf(
+`two words`
+    ,  u8x { // `tick` ""quote"" 'q'
+charz `100% of %d` // packet A { u8 x, }
+,}// " ++ [27880; 37322]%N ++ runes_of_ascii "
+,} char }
+    // a // b
+    packet metadata {  @leftPad ( '0') repeat i32 options1 ,u64 uint8x , }
+")).
+Eval vm_compute in ("<<<M2034>>>" ++ check (runes_of_ascii "packet	packetx { // trailing space 
+x_y_z
+{
+string
+charz ,
+string x// @lengthOf(
+`two words`
+    ,  u8x { // `tick` ""quote"" 'q'
+charz @`100% of %d` // packet A { u8 x, }
+,}// " ++ [27880; 37322]%N ++ runes_of_ascii "
+,} , }
+    // a // b
+    packet metadata {  @leftPad ( '0') repeat i32 options1 ,u64 uint8x , }
+")).
+Eval vm_compute in ("<<<M1963>>>" ++ check (runes_of_ascii "packet	packetx { // trailing space 
+x_y_z
+{
+string
+charz ,
+string x// @lengthOf(
+`two words`
+    ,  u8x { // `tick` ""quote"" 'q'
+charz `100% of %d` // packet A { u8 x, }
+,}// " ++ [27880; 37322]%N ++ runes_of_ascii "
+,} , }
+    // a // b
+    packet { metadata  @leftPad ( '0') repeat i32 options1 ,u64 uint8x , }
+")).
+Eval vm_compute in ("<<<M1976>>>" ++ check (runes_of_ascii "packet	packetx { // trailing space 
+x_y_z
+{
+string
+charz ,
+string x// @lengthOf(
+`two words`
+    ,  u8x { // `tick` ""quote"" 'q'
+charz `100% of %d` // packet A { u8 x, }
+,}// " ++ [27880; 37322]%N ++ runes_of_ascii "
+,} , }
+    // a // b
+    packet metadata {  @leftPad  '0') repeat i32 options1 ,u64 uint8x , }
+")).
+Eval vm_compute in ("<<<M3791>>>" ++ check (runes_of_ascii "MetaData Logon {
+    u tag,
+    i8 float,
+    trueish chars `" ++ [233]%N ++ runes_of_ascii "`,
+    char[3] len `it's`,
+    int16 f32a,
+    f32 trueish `tab	here`,
+}
+
+packet metadata {
+    @calculatedFrom(""" ++ [28040; 24687]%N ++ runes_of_ascii """)
+    @leftPad()
+    u128,
+}
+
+packet o {
+    stringy _x,
+    calculatedFrom u128 `100% of %d`,
+}")).
+Eval vm_compute in ("<<<M2120>>>" ++ check (runes_of_ascii "packet// packet A { u8 x, }
+repeatCount	{// packet A { u8 x, }
+@leftPad ( '\x00'
+) repeat u8x MetaDataX `crlf
+line`,
+    repeat
+    char[] MetaDataX MetaDataX
+    ,
+u64	uint8x@calculatedFrom(""a\""b""
+// c
+// packet A { u8 x, }
+) `tab	here`
+,//
+}MetaData pack
+    {
+    }
+")).
+Eval vm_compute in ("<<<M118>>>" ++ check (runes_of_ascii "root packet _x {zchar[ 65535
+    ]x @lengthOf( //x
+uint8x ) `" ++ [28040; 24687; 31867; 22411]%N ++ runes_of_ascii "`, @leftPad
+    //	t
+    ('\x00' ) match
+float as stringy { ""// no comment"" :	int
+, 7:
+x_y_z
+    ,
+    ""`tick`"" :lengthOf
+    , } ,
+@lengthOf( f32a ) repeat BodyLength Header , u
+Foo
+`it's` , } 	 ")).
+Eval vm_compute in ("<<<M1459>>>" ++ check (runes_of_ascii "packet calculatedFrom
+{ @calculatedFrom( ""a\\"" ) zchar[ 4294967296 ]
+calculatedFrom calculatedFrom@lengthOf( pack )	`100% of %d` ,char[]body@calculatedFrom( ""// no comment"" )  ,
+@tag( 007) //x
+int8
+leftPad`it's` , repeat pack
+    { repeat char[ 3] body
+,},
+}")).
+Eval vm_compute in ("<<<M1044>>>" ++ check (runes_of_ascii "packet float {match	chars
+as
+options1
+{ 255 : u128
+    , [""{,}"" , // " ++ [128512]%N ++ runes_of_ascii " emoji
+007
+,
+""""
+    //
+    , ""\n"" ,	""it's""
+    ] : string_
+    } // " ++ [27880; 37322]%N ++ runes_of_ascii "
+, @calculatedFrom(""" ++ [28040; 24687]%N ++ runes_of_ascii """ ) string x_y_z,
+@rightPad
+(	) x_y_z calculatedFrom
+,
+char[] i64_ @lengthOf(metadata
+) ,
+}
+")).
+Eval vm_compute in ("<<<M2161>>>" ++ check (runes_of_ascii "packet// packet A { u8 x, }
+repeatCount	{// packet A { u8 x, }
+@leftPad ( '\x00'
+) repeat u8x MetaDataX `crlf
+line`,
+    repeat
+    char[] MetaDataX
+    ,
+u64	uint8x@calculatedFrom(""a\""b""
+// c
+// packet A { u8 x, }
+) `tab	here`
+}//
+,MetaData pack
+    {
+    }
+")).
+Eval vm_compute in ("<<<M3763>>>" ++ check (runes_of_ascii "MetaData options1 {
+    asx trueish,
+    i8i8 Header `
+    `,
+    char[00] stringy,
+    i16 int `100% of %d`,
+    i64 o `crlf
+    line`,
+    string u8x,
+}
+
+options {
+    _x = 4294967296
+}//x
+
+MetaData asx {
+    // `tick` ""quote"" 'q'
+    zchar[42] uint8x,
+}")).
+Eval vm_compute in ("<<<M1574>>>" ++ check (runes_of_ascii "packet calculatedFrom
+{ @calculatedFrom( ""a\\"" ) zchar[ 4294967296 ]
+calculatedFrom@lengthOf( pack )	`100% of %d` ,char[]body@calculatedFrom( ""// no comment"" )  ,
+@tag( 007) //x
+int8
+leftPad`it's` , repeat pack
+    { repeat char[ char[ 3] body
+,},
+}")).
+Eval vm_compute in ("<<<M491>>>" ++ check (runes_of_ascii "MetaData MetaDataX {u64 As // c
+, Pad // " ++ [27880; 37322]%N ++ runes_of_ascii "
+falsey `crlf
+line` ,  } MetaData packetx {
+    string tag
+    ,
+string repeatCount , } //	t
+packet leftPad { chars // " ++ [27880; 37322]%N ++ runes_of_ascii "
+, uint16 u128, @lengthOf(
+int )_x Foo `u8 x,` , x
+@lengthOf(  asx
+    )
+, } // " ++ [27880; 37322]%N)).
+Eval vm_compute in ("<<<M3741>>>" ++ check (runes_of_ascii "  packet pack  {
+	repeatCount	calculatedFrom `line1
+line2`
+
+    ,
+    }
+	root  packet metadata  {i16
+repeatCount
+, 
+match
+pack as	string_
+{ // " ++ [128512]%N ++ runes_of_ascii " emoji
+10 	 // " ++ [27880; 37322]%N ++ runes_of_ascii "
+:
+f32a
+
+, 
+} , @leftPad(
+	'\x00'
+    ) int64 zchar
+,
+}
+	packet options1{	//x
+	} ")).
+Eval vm_compute in ("<<<M1435>>>" ++ check (runes_of_ascii "packet calculatedFrom
+{ @calculatedFrom( ) ""a\\"" zchar[ 4294967296 ]
+calculatedFrom@lengthOf( pack )	`100% of %d` ,char[]body@calculatedFrom( ""// no comment"" )  ,
+@tag( 007) //x
+int8
+leftPad`it's` , repeat pack
+    { repeat char[ 3] body
+,},
+}")).
+Eval vm_compute in ("<<<M1605>>>" ++ check (runes_of_ascii "packet calculatedFrom
+{ @calculatedFrom( ""a\\"" ) zchar[ 4294967296 ]
+calculatedFrom@lengthOf( pack )	`100% of %d` ,char[]body@calculatedFrom( ""// no comment"" )  ,
+@tag( 007) //x
+int8
+leftPad`it's` , repeat pack
+    { repeat char[ 3] body
+,}}
+,")).
+Eval vm_compute in ("<<<M1523>>>" ++ check (runes_of_ascii "packet calculatedFrom
+{ @calculatedFrom( ""a\\"" ) zchar[ 4294967296 ]
+calculatedFrom@lengthOf( pack )	`100% of %d` ,char[]body@calculatedFrom( ""// no comment"" )  ,
+@tag( ) //x
+int8
+leftPad`it's` , repeat pack
+    { repeat char[ 3] body
+,},
+}")).
+Eval vm_compute in ("<<<M1488>>>" ++ check (runes_of_ascii "packet calculatedFrom
+{ @calculatedFrom( ""a\\"" ) zchar[ 4294967296 ]
+calculatedFrom@lengthOf( pack )	`100% of %d` ,body@calculatedFrom( ""// no comment"" )  ,
+@tag( 007) //x
+int8
+leftPad`it's` , repeat pack
+    { repeat char[ 3] body
+,},
+}")).
+Eval vm_compute in ("<<<M1458>>>" ++ check (runes_of_ascii "packet calculatedFrom
+{ @calculatedFrom( ""a\\"" ) zchar[ 4294967296 ]
+@lengthOf( pack )	`100% of %d` ,char[]body@calculatedFrom( ""// no comment"" )  ,
+@tag( 007) //x
+int8
+leftPad`it's` , repeat pack
+    { repeat char[ 3] body
+,},
+}")).
+Eval vm_compute in ("<<<M3963>>>" ++ check (runes_of_ascii "// `tick` ""quote"" 'q'
+root packet chars {
+}
+
+packet msg_type {
+    // @lengthOf(
+    msg_type @lengthOf(Z9_) `tab	here`,
+}
+
+options {
+    msg_type = 10;
+    x_y_z = uint64;
+    falsey = ""1""
+    len = ""\n""
+    Z9_ = ' ';
+}")).
+Eval vm_compute in ("<<<M1320>>>" ++ check (runes_of_ascii "packet A { @lengthOf( matchKey
+    ) @calculatedFrom( ""{,}""
+)
+    match leftPad as  i8i8 {
+[
+""x y""
+    ]:Z9_
+    , } , @calculatedFrom(
+""{,}"" ) @tag( 10 )uint8x @lengthOf(
+// `tick` ""quote"" 'q'
 // " ++ [128512]%N ++ runes_of_ascii " emoji
-] //x
-  ; 
+x) , }")).
+Eval vm_compute in ("<<<M3606>>>" ++ check (runes_of_ascii "packet o {
+    @lengthOf(Pad)
+    @tag(1)
+    @lengthOf(stringy)
+    int32 rootA `it's`,
+    @lengthOf(int)
+    // a // b
+    @tag(65535)
+    @lengthOf(Header)
+    uint8 Header @calculatedFrom(""" ++ [233]%N ++ runes_of_ascii "t" ++ [233]%N ++ runes_of_ascii """),
+}")).
+Eval vm_compute in ("<<<M4421>>>" ++ check (runes_of_ascii "root
+    packet
+chars{ } 
+	    //	t
+  // trailing space 
+
+	options
+{trueish
+    = 
+true
+	    /// triple
+    ; } packet
+	chars
+
+    { char[ 7
+]trueish
+
+,
+int8
+
+    string_
+`two words`
+,	}")).
+Eval vm_compute in ("<<<M3855>>>" ++ check (runes_of_ascii "// top
+MetaData float {
+    // c2
+    uint8 BodyLength,
+    // c5
+}
+
+// c6
+MetaData charz {
+    // c9
+    float32 trueish `a\`,
+    // c13
+    i16 metadata `say ""hi""`,
+    // c17
+}
+// c18")).
+Eval vm_compute in ("<<<M1202>>>" ++ check (runes_of_ascii "packet //	t
+Pad { @tag( 65535) repeat
+    len {
+match calculatedFrom
+as stringy{ 3 :
+    u128 ,
+10
+: charz, } ,i8 zchar
+    `doc`,},//	t
+matchKey x,
+    // " ++ [128512]%N ++ runes_of_ascii " emoji
+    } // " ++ [128512]%N ++ runes_of_ascii " emoji")).
+Eval vm_compute in ("<<<M1532>>>" ++ check (runes_of_ascii "packet calculatedFrom
+{ @calculatedFrom( ""a\\"" ) zchar[ 4294967296 ]
+calculatedFrom@lengthOf( pack )	`100% of %d` ,char[]body@calculatedFrom( ""// no comment"" )  ,
+@tag( 007")).
+Eval vm_compute in ("<<<M2143>>>" ++ check (runes_of_ascii "packet// packet A { u8 x, }
+repeatCount	{// packet A { u8 x, }
+@leftPad ( '\x00'
+) repeat u8x MetaDataX `crlf
+line`,
+    repeat
+    char[] MetaDataX
+    ,
+u64	uint8x")).
+Eval vm_compute in ("<<<M1783>>>" ++ check (runes_of_ascii "options { } packet Packet{char[] i64_ ,
+@tag(
+    255) match
+crc as i8i8{""{,}"" : trueish """" : Pad , ""a\\"" :
+Foo ,
+    1 :packetx packetx
+, """ ++ [128512]%N ++ runes_of_ascii """ : trueish , } , }")).
+Eval vm_compute in ("<<<M477>>>" ++ check (runes_of_ascii "
+MetaData metadata {
+a1
+lengthOf
+`100% of %d`//x
+,
+    // " ++ [128512]%N ++ runes_of_ascii " emoji
+    asx o ,int32	crc
+    , }
+packet a1
+{ @tag( 0 ) zchar[
+65535 ]len  `// not a comment`,}
+")).
+Eval vm_compute in ("<<<M1512>>>" ++ check (runes_of_ascii "packet calculatedFrom
+{ @calculatedFrom( ""a\\"" ) zchar[ 4294967296 ]
+calculatedFrom@lengthOf( pack )	`100% of %d` ,char[]body@calculatedFrom( ""// no comment""")).
+Eval vm_compute in ("<<<M2379>>>" ++ check (runes_of_ascii "
+packet MetaDataX
+{
+    @leftPad
+( // a // b
+'0'
+) i8 @lengthOf( u
+MetaDataX
+    ) `say ""hi""` ,	} MetaData BodyLength {
+    asx
+x_y_z `" ++ [233]%N ++ runes_of_ascii "`
+, uint64 u128 , }
+")).
+Eval vm_compute in ("<<<M1808>>>" ++ check (runes_of_ascii "options { } packet Packet{char[] i64_ ,
+@tag(
+    255) match
+crc as i8i8{""{,}"" : trueish """" : Pad , ""a\\"" :
+Foo ,
+    1 :packetx
+, """ ++ [128512]%N ++ runes_of_ascii """ : trueish , , } , }")).
+Eval vm_compute in ("<<<M1815>>>" ++ check (runes_of_ascii "options { } packet Packet{char[] i64_ ,
+@tag(
+    255) match
+crc as i8i8{""{,}"" : trueish """" : Pad , ""a\\"" :
+Foo ,
+    1 :packetx
+, """ ++ [128512]%N ++ runes_of_ascii """ : trueish , u8 , }")).
+Eval vm_compute in ("<<<M1729>>>" ++ check (runes_of_ascii "options { } packet Packet{char[] i64_ ,
+@tag(
+    255) match
+crc as i8i8{""{,}"" : """" trueish : Pad , ""a\\"" :
+Foo ,
+    1 :packetx
+, """ ++ [128512]%N ++ runes_of_ascii """ : trueish , } , }")).
+Eval vm_compute in ("<<<M1305>>>" ++ check (runes_of_ascii "MetaData f32a
+{ }MetaData
+calculatedFrom {
+} options { trueish = char[] ; MetaDataX
+// 50% %s
+// trailing space 
+=
+false
+; leftPad = // 50% %s
+int64 }
+")).
+Eval vm_compute in ("<<<M1670>>>" ++ check (runes_of_ascii "options { } packet Packet{char[] u8 ,
+@tag(
+    255) match
+crc as i8i8{""{,}"" : trueish """" : Pad , ""a\\"" :
+Foo ,
+    1 :packetx
+, """ ++ [128512]%N ++ runes_of_ascii """ : trueish , } , }")).
+Eval vm_compute in ("<<<M1165>>>" ++ check (runes_of_ascii "
+packet u
+    { @calculatedFrom(""CRC32"" ) @calculatedFrom(
+    ""a\""b"" )
+repeat // c
+int { string
+zchar @lengthOf(
+leftPad// @lengthOf(
+) `u8 x,`,}
+, }")).
+Eval vm_compute in ("<<<M2363>>>" ++ check (runes_of_ascii "
+packet 
+{
+    @leftPad
+( // a // b
+'0'
+) i8 u @lengthOf(
+MetaDataX
+    ) `say ""hi""` ,	} MetaData BodyLength {
+    asx
+x_y_z `" ++ [233]%N ++ runes_of_ascii "`
+, uint64 u128 , }
+")).
+Eval vm_compute in ("<<<M591>>>" ++ check (runes_of_ascii "// @lengthOf(
+root packet crc { } options{ rootA =false ;
+roots =65535
+    Z9_ = ""it's""
+; rootA
+    // trailing space 
+    = f64 ; Z9_ =char }")).
+Eval vm_compute in ("<<<M713>>>" ++ check (runes_of_ascii "MetaData As
+{ roots
+tag,  u32
+a1``,
+    crc	packetx ,BodyLength A `crlf
+line`
+    ,
+} options {
+    a1
+//	t
+// @lengthOf(
+=
+true
+    }
+")).
+Eval vm_compute in ("<<<M2436>>>" ++ check (runes_of_ascii "
+packet MetaDataX
+{
+    @leftPad
+( // a // b
+'0'
+) i8 u @lengthOf(
+MetaDataX
+    ) `say ""hi""` ,	} MetaData BodyLength {
+    asx
+x_y_z")).
+Eval vm_compute in ("<<<M1328>>>" ++ check (runes_of_ascii "
+MetaData float{ float64 u128 ,
+    } options  {
+}options
+{ body=	char[]  float =
+float64 repeatCount = float32
+options1 =1 ; } 	 ")).
+Eval vm_compute in ("<<<M3261>>>" ++ check (runes_of_ascii "
+// c
+MetaData metadata { } MetaData rootA { i8 i64_ , roots options1 `a\` , lengthOf Header , Z9_ Foo , int16 BodyLength , }")).
+Eval vm_compute in ("<<<M3286>>>" ++ check (runes_of_ascii "MetaData metadata { } MetaData rootA { i8 i64_ , roots options1 `a\` // c
+, lengthOf Header , Z9_ Foo , int16 BodyLength , }")).
+Eval vm_compute in ("<<<M1285>>>" ++ check (runes_of_ascii "options {
+    Pad =  false ;//x
+asx =
+    '\x00'
+    // a // b
+    ;
+BodyLength =// " ++ [27880; 37322]%N ++ runes_of_ascii "
+""packet""	o = char[]crc = false } 	 ")).
+Eval vm_compute in ("<<<M2108>>>" ++ check (runes_of_ascii "packet// packet A { u8 x, }
+repeatCount	{// packet A { u8 x, }
+@leftPad ( '\x00'
+) repeat u8x MetaDataX `crlf
+line`")).
+Eval vm_compute in ("<<<M1018>>>" ++ check (runes_of_ascii "
+MetaData As
+{string MetaDataX
+`" ++ [28040; 24687; 31867; 22411]%N ++ runes_of_ascii "` ,trueish	matchKey
+    , zchar[ 42
+]
+// c
+// trailing space 
+A`it's` , }
+")).
+Eval vm_compute in ("<<<M3325>>>" ++ check (runes_of_ascii "MetaData float { uint8
+// c
+BodyLength , } MetaData charz { float32 trueish `a\` , i16 metadata `say ""hi""` , }")).
+Eval vm_compute in ("<<<M3942>>>" ++ check (runes_of_ascii "// packet A { u8 x, }
+MetaData int {
+    zchar[42] x `" ++ [233]%N ++ runes_of_ascii "`,
+    uint8 _x `crlf
+        line`,
+    len u ``,
+}//")).
+Eval vm_compute in ("<<<M1395>>>" ++ check (runes_of_ascii "root packet
+    falsey{ @tag( 0123456789	) @rightPad(' ' ) @calculatedFrom(
+""" ++ [128512]%N ++ runes_of_ascii """ //x
+)uint32
+    As ,
+}
+")).
+Eval vm_compute in ("<<<M4365>>>" ++ check (runes_of_ascii "  MetaData 
+_x{ string 
+x
+	`// not a comment`
+
+    , char[]
+    i64_ // trailing space 
+	`a\`
+, 
 }
 
 ")).
-Eval vm_compute in ("<<<M1975>>>" ++ check (runes_of_ascii "packet
-    Logon
+Eval vm_compute in ("<<<M4036>>>" ++ check (runes_of_ascii "  options {  a	=
+    true
+    ;  b =
+    false
 
-    {
-@tag(
-	42 
-) @rightPad
+;
+    c
 
-(
+=
+	'0'
 
-' '
-
-    // c
-	  ) 
-@leftPad 
-( )  repeat trueish
-{
-
-string T
-,
-	} 
-,	}")).
-Eval vm_compute in ("<<<M648>>>" ++ check (runes_of_ascii "MetaData
-    // trailing space 
-    matchKey
-{ u64 chars // a // b
-,char[] lengthOf `// not a comment`
-    , //	t
-@tag}")).
-Eval vm_compute in ("<<<M645>>>" ++ check (runes_of_ascii "MetaData
-    // trailing space 
-    match?Key
-{ u64 chars // a // b
-,char[] lengthOf `// not a comment`
-    , //	t
-}")).
-Eval vm_compute in ("<<<M1966>>>" ++ check (runes_of_ascii "
-
-  packet
-	o
-{
-@tag(
-42)	repeat  x
-
-    { 
-char[ 0123456789
-
-] 
-i64_
-	    // c
-  ,}	,
-    }options
-
-{
-
-    } ")).
-Eval vm_compute in ("<<<M960>>>" ++ check (runes_of_ascii "packet A {
-    u16 len @lengthOf(body) `tab
-	x`,
-    u32 crc @calculatedFrom(""CRC32"") `tab
-	x`,
-    string body,
-}")).
-Eval vm_compute in ("<<<M972>>>" ++ check (runes_of_ascii "packet A {
-    match k as n {
-        ""\
-"" : B,
-        [""\
-"", 1] : C,
-        [1,2,3,4,5,""\
-""] : D,
+    ;
+	d = ""s"" 
+;  e =
+	007
+; }
+")).
+Eval vm_compute in ("<<<M3039>>>" ++ check (runes_of_ascii "packet A {
+    Inner {
+        u8 x `
+`,
+        Deep {
+            u8 y `
+`,
+        },
     },
 }")).
-Eval vm_compute in ("<<<M635>>>" ++ check (runes_of_ascii "MetaData
-    // trailing space 
-    matchKey
-{ u64 chars // a // b
-,char[] lengthOf `// not a comment`")).
-Eval vm_compute in ("<<<M1270>>>" ++ check (runes_of_ascii "packet calculatedFrom { @tag( 4294967296 ) u msg_type ,
-// c
-char[ 3 ] crc @lengthOf( len ) `u8 x,` , }")).
-Eval vm_compute in ("<<<M894>>>" ++ check (runes_of_ascii "packet A {
-  match k as n {
-    [1, ""bb"", 007, ""d"", 5, ""f"", 7, ""h"", 9, ""j"", 11] : B,
-    2 : C
-  },
-}")).
-Eval vm_compute in ("<<<M854>>>" ++ check (runes_of_ascii "packet A {
-  match k as n {
-    [""a"", ""bb"", ""c c"", ""d"", ""e"", ""f"", ""g"", ""h""] : B
-    2 : C
-  },
-}")).
-Eval vm_compute in ("<<<M1148>>>" ++ check (runes_of_ascii "packet Logon { @tag( 42 ) @rightPad ( ' ' ) // c
-@leftPad ( ) repeat trueish { string T , } , }")).
-Eval vm_compute in ("<<<M885>>>" ++ check (runes_of_ascii "packet A {
-  match k as n {
-    [1, 22, ""c c"", 4, 5, ""f"", 7, 8, ""i"", 10] : B,
-    2 : C
-  },
-}")).
-Eval vm_compute in ("<<<M855>>>" ++ check (runes_of_ascii "packet A {
-  match k as n {
-    [1, ""bb"", 007, ""d"", 5, ""f"", 7, ""h""] : B,
-    2 : C
-  },
-}")).
-Eval vm_compute in ("<<<M1859>>>" ++ check (runes_of_ascii "
-packet 
-A  {match	k
-as
-n
-{ 
-[ ""a"" ,	""bb""
-,	007
-	,  ""d"",
-""e"" ]
-	: B
-	2 :  C
-	} , }
-")).
-Eval vm_compute in ("<<<M1872>>>" ++ check (runes_of_ascii "
+Eval vm_compute in ("<<<M4090>>>" ++ check (runes_of_ascii "  packet
+A  {
 
-  packet
-f32a {  //
-  @tag(
-    1  )
-Z9_ chars
-
-,	chars  // " ++ [128512]%N ++ runes_of_ascii " emoji
-`
-`
+    u32
+crc@calculatedFrom(
+""\
+"" )
+,  @calculatedFrom( ""\
+"" )  u8 y 
 , 
 }
 ")).
-Eval vm_compute in ("<<<M1231>>>" ++ check (runes_of_ascii "packet o { @tag( 42 ) repeat x { char[ 0123456789 ]
-// c
-i64_ , } , } options { }")).
-Eval vm_compute in ("<<<M125>>>" ++ check (runes_of_ascii "root
-packet x_y_z{
-// a // b
-// packet A { u8 x, }
-repeat falsey // " ++ [27880; 37322]%N ++ runes_of_ascii "
-`" ++ [233]%N ++ runes_of_ascii "` , }")).
-Eval vm_compute in ("<<<M625>>>" ++ check (runes_of_ascii "MetaData
-    // trailing space 
-    matchKey
-{ u64 chars // a // b
-,char[]")).
-Eval vm_compute in ("<<<M812>>>" ++ check (runes_of_ascii "packet A {
-  match k as n {
-    [1, 22, 007, 4, 5] : B,
-    2 : C
-  },
-}")).
-Eval vm_compute in ("<<<M1313>>>" ++ check (runes_of_ascii "MetaData _x { // c
-zchar[ 4294967296 ] lengthOf `// not a comment` , }")).
-Eval vm_compute in ("<<<M1292>>>" ++ check (runes_of_ascii "// top
-packet
-    // c0
-lengthOf
-    // c1
-{
-    // c2
-}
-    // c3
+Eval vm_compute in ("<<<M2262>>>" ++ check (runes_of_ascii "MetaData _x {string x `// not a comment` , string
+i64_ // trailing space 
+`a\` int16
+    }
 ")).
-Eval vm_compute in ("<<<M784>>>" ++ check (runes_of_ascii "packet A {
-  match k as n {
-    [""a"", 22] : B
-    2 : C
-  },
+Eval vm_compute in ("<<<M2275>>>" ++ check (runes_of_ascii "MetaData _x {string x `// not a comment` , string
+@xi64_ // trailing space 
+`a\` ,
+    }
+")).
+Eval vm_compute in ("<<<M4016>>>" ++ check (runes_of_ascii "options {
+    // " ++ [27880; 37322]%N ++ runes_of_ascii "
+    zchar = ""a\""b"";
+    metadata = 65535
+}
+
+options {
+    i64_ = 0;
 }")).
-Eval vm_compute in ("<<<M1758>>>" ++ check (runes_of_ascii "packet A {
+Eval vm_compute in ("<<<M3043>>>" ++ check (runes_of_ascii "packet A {
+    B b `a
+    b
+  c`,
+    B `a
+    b
+  c`,
+    repeat B bs `a
+    b
+  c`,
+}")).
+Eval vm_compute in ("<<<M4183>>>" ++ check (runes_of_ascii "packet A {
     match k as n {
-        [1, 2] : B,
+        [1, 22, 007, 4, 5] : B,
+        2 : C,
     },
 }")).
-Eval vm_compute in ("<<<M1078>>>" ++ check (runes_of_ascii "packet A { u8 x, } // a
-// b
-packet B {} // c
-// d")).
-Eval vm_compute in ("<<<M76>>>" ++ check (runes_of_ascii "options { repeatCount= 00 ; }
-// " ++ [128512]%N ++ runes_of_ascii " emoji
+Eval vm_compute in ("<<<M1731>>>" ++ check (runes_of_ascii "options { } packet Packet{char[] i64_ ,
+@tag(
+    255) match
+crc as i8i8{""{,}"" :")).
+Eval vm_compute in ("<<<M95>>>" ++ check (runes_of_ascii "packet zchar {
+Header
+@lengthOf(
+//
+// a // b
+body
+// trailing space 
+// " ++ [27880; 37322]%N ++ runes_of_ascii "
+),}
 ")).
-Eval vm_compute in ("<<<M1888>>>" ++ check (runes_of_ascii "packet
+Eval vm_compute in ("<<<M4536>>>" ++ check (runes_of_ascii "packet Inner {
+    u8 a,
+}
 
-    lengthOf
-    {
-    }  // c")).
-Eval vm_compute in ("<<<M1516>>>" ++ check (runes_of_ascii "packet A {
-    u8 x `tab
-    	x`,
+root packet P {
+    repeat Inner items,
+    u8 x,
 }")).
-Eval vm_compute in ("<<<M933>>>" ++ check (runes_of_ascii "root packet A {
-    u8 x `
+Eval vm_compute in ("<<<M2770>>>" ++ check (runes_of_ascii "char[] i16 @lengthOf( match zchar[ false int8 `{ , }` uint8 as """ ++ [128512]%N ++ runes_of_ascii """ u8 uint32")).
+Eval vm_compute in ("<<<M3390>>>" ++ check (runes_of_ascii "MetaData _x { f64 charz `tab	here` , } options { BodyLength = """ ++ [233]%N ++ runes_of_ascii "t" ++ [233]%N ++ runes_of_ascii """ ; // c
+}")).
+Eval vm_compute in ("<<<M2929>>>" ++ check (runes_of_ascii "packet A {
+  match k as n {
+    [1, 22, ""c c"", 4, 5] : B
+    2 : C
+  },
+}")).
+Eval vm_compute in ("<<<M2904>>>" ++ check (runes_of_ascii "packet A {
+  match k as n {
+    [""a"", ""bb"", 007] : B,
+    2 : C
+  },
+}")).
+Eval vm_compute in ("<<<M3404>>>" ++ check (runes_of_ascii "packet o // c
+{ @tag( 4294967296 ) options1 @lengthOf( u8x ) `" ++ [233]%N ++ runes_of_ascii "` , }")).
+Eval vm_compute in ("<<<M2032>>>" ++ check (runes_of_ascii "packet	packetx { // trailing space 
+x_y_z
+{
+string
+charz ,
+strin")).
+Eval vm_compute in ("<<<M660>>>" ++ check (runes_of_ascii "MetaData o{	zchar[ 7]
+msg_type
+    ,x_y_z
+trueish`line1
+line2` ,}")).
+Eval vm_compute in ("<<<M428>>>" ++ check (runes_of_ascii "packet
+    // " ++ [128512]%N ++ runes_of_ascii " emoji
+    chars
+    { repeat Header chars , }
+")).
+Eval vm_compute in ("<<<M3055>>>" ++ check (runes_of_ascii "packet A {
+    B b `x
+`,
+    B `x
+`,
+    repeat B bs `x
 `,
 }")).
-Eval vm_compute in ("<<<M1076>>>" ++ check (runes_of_ascii "MetaData M {
-}// c
-options {}")).
-Eval vm_compute in ("<<<M1303>>>" ++ check (runes_of_ascii "packet lengthOf { }
-// c
+Eval vm_compute in ("<<<M2290>>>" ++ check (runes_of_ascii "
+MetaData MetaData Pad{
+u32 rootA `line1
+line2` ,
+    }
 ")).
-Eval vm_compute in ("<<<M767>>>" ++ check (runes_of_ascii "@calculatedFrom( int32")).
-Eval vm_compute in ("<<<M976>>>" ++ check (runes_of_ascii "// c 
-packet A {
+Eval vm_compute in ("<<<M4303>>>" ++ check (runes_of_ascii "packet u8x {
+    // 50% %s
+    zchar[007] BodyLength,
 }")).
-Eval vm_compute in ("<<<M1058>>>" ++ check (runes_of_ascii "packet A {
-}// c x")).
-Eval vm_compute in ("<<<M325>>>" ++ check (runes_of_ascii "packet Z9_ {	}
+Eval vm_compute in ("<<<M86>>>" ++ check (runes_of_ascii "options { packetx= uint64 // `tick` ""quote"" 'q'
+;
+}")).
+Eval vm_compute in ("<<<M2336>>>" ++ check (runes_of_ascii "
+MetaData Pad"" {
+u32 rootA `line1
+line2` ,
+    }
 ")).
-Eval vm_compute in ("<<<M1059>>>" ++ check (runes_of_ascii "// c x")).
-Eval vm_compute in ("<<<M730>>>" ++ check (runes_of_ascii "/")).
+Eval vm_compute in ("<<<M3832>>>" ++ check (runes_of_ascii "MetaData zchar 
+{ zchar[
+	3 
+]	// c
+		Pad
+	,
+}
+")).
+Eval vm_compute in ("<<<M3993>>>" ++ check (runes_of_ascii "packet uint8x {
+    char[] rootA `{ , }`,
+}//	t")).
+Eval vm_compute in ("<<<M545>>>" ++ check (runes_of_ascii "  options { metadata= '0'
+    ;
+//x
+// " ++ [27880; 37322]%N ++ runes_of_ascii "
+}
+")).
+Eval vm_compute in ("<<<M651>>>" ++ check (runes_of_ascii "options
+    {roots
+// " ++ [27880; 37322]%N ++ runes_of_ascii "
+// a // b
+= 10 }
+")).
+Eval vm_compute in ("<<<M2243>>>" ++ check (runes_of_ascii "MetaData _x {string x `// not a comment`")).
+Eval vm_compute in ("<<<M2766>>>" ++ check (runes_of_ascii "7 uint64 = ( repeat ) char zchar[ false")).
+Eval vm_compute in ("<<<M3224>>>" ++ check (runes_of_ascii "packet A { u8 x,// a
+
+
+// b
+
+ u8 y, }")).
+Eval vm_compute in ("<<<M1826>>>" ++ check (runes_of_ascii "options { } packet Packet{char[] i6")).
+Eval vm_compute in ("<<<M3862>>>" ++ check (runes_of_ascii "options {
+    metadata = '\x00';
+}")).
+Eval vm_compute in ("<<<M2606>>>" ++ check (runes_of_ascii "packet A { x @lengthOf(y) `d`, }")).
+Eval vm_compute in ("<<<M3126>>>" ++ check (runes_of_ascii "packet A {
+ u8 x `d" ++ [5760]%N ++ runes_of_ascii "`, // c" ++ [5760]%N ++ runes_of_ascii "
+}")).
+Eval vm_compute in ("<<<M2609>>>" ++ check (runes_of_ascii "packet A { x @lengthOf(3), }")).
+Eval vm_compute in ("<<<M589>>>" ++ check (runes_of_ascii "options
+{
+Z9_ ='\x00' ;}
+")).
+Eval vm_compute in ("<<<M2756>>>" ++ check (runes_of_ascii "J" ++ [65533]%N ++ runes_of_ascii "i" ++ [65533]%N ++ runes_of_ascii "4" ++ [65533; 65533; 65533]%N ++ runes_of_ascii "_z" ++ [65533; 65533]%N ++ runes_of_ascii "l&e" ++ [65533; 65533; 65533]%N ++ runes_of_ascii "M" ++ [65533; 65533; 11; 25; 65533; 27]%N)).
+Eval vm_compute in ("<<<M758>>>" ++ check (runes_of_ascii "root packet len
+    {}
+")).
+Eval vm_compute in ("<<<M2667>>>" ++ check (runes_of_ascii "MetaData M { x y z, }")).
+Eval vm_compute in ("<<<M2031>>>" ++ check (runes_of_ascii "packet	packetx { //")).
+Eval vm_compute in ("<<<M3109>>>" ++ check (runes_of_ascii "packet A {
+}
+// c" ++ [12288]%N)).
+Eval vm_compute in ("<<<M3202>>>" ++ check (runes_of_ascii "MetaData M {
+}// c")).
+Eval vm_compute in ("<<<M3142>>>" ++ check (runes_of_ascii "packet A {
+}// c" ++ [8233]%N)).
+Eval vm_compute in ("<<<M1388>>>" ++ check (runes_of_ascii "// @lengthOf(
+
+")).
+Eval vm_compute in ("<<<M2302>>>" ++ check (runes_of_ascii "
+MetaData Pad")).
+Eval vm_compute in ("<<<M2742>>>" ++ check (runes_of_ascii "i32 match {")).
+Eval vm_compute in ("<<<M2484>>>" ++ check (runes_of_ascii "Metadata")).
+Eval vm_compute in ("<<<M4186>>>" ++ check (runes_of_ascii "// c 
+")).
+Eval vm_compute in ("<<<M2455>>>" ++ check (runes_of_ascii "zchar")).
+Eval vm_compute in ("<<<M3183>>>" ++ check (runes_of_ascii "// c" ++ [6158]%N)).
+Eval vm_compute in ("<<<M152>>>" ++ check (runes_of_ascii "
+
+
+")).
+Eval vm_compute in ("<<<M2708>>>" ++ check (runes_of_ascii " " ++ [12]%N ++ runes_of_ascii " ")).
+Eval vm_compute in ("<<<M2514>>>" ++ check (runes_of_ascii "@")).
